@@ -12,1020 +12,2506 @@ Definition show_fres (r : fres) : string :=
   end.
 Definition check (rs : list rune) : string := digest (show_fres (format_res rs)).
 Definition full (rs : list rune) : string := show_fres (format_res rs).
-Eval vm_compute in ("<<<M1841>>>" ++ check (runes_of_ascii "// @lengthOf(
-MetaData zchar {
-    string o `crlf
-    line`,
-    char[] pack `crlf
-    line`,
-    char[] Foo,
+Eval vm_compute in ("<<<M3585>>>" ++ check (runes_of_ascii "options {
+    LittleEndian = true;
+    StringPrefixLenType = u8;
+    ArrayPrefixLenType = u16;
+    FixedStringPadChar = '0';
+    JavaPackage = ""com.example.msg"";
+    GoPackage = ""msg"";
+    GoModule = ""example.com/msg"";
 }
-
-options {
-    stringy = ""`tick`""
+MetaData Meta {
+    u32 SeqNum `sequence number`,
+    char[8] Symbol `symbol`,
+    zchar[5] ZSym `z symbol`,
+    string Note,
+    Symbol AltSymbol `alias of symbol`,
+    f64 Price,
 }
-
-packet leftPad {
-    packetx @lengthOf(roots),
-    @lengthOf(int)
-    @calculatedFrom(""a\""b"")
-    @calculatedFrom(""" ++ [28040; 24687]%N ++ runes_of_ascii """)
-    int32 MetaDataX `" ++ [233]%N ++ runes_of_ascii "`,
-    u8 int,
-    @lengthOf(options1)
-    repeat u8 BodyLength,
-    @tag(1)
-    Logon,
-    repeat int32 u8x `say ""hi""`,
-    match int as charz {
-        ""abc"" : roots,
-    },
-    string_ {
-        zchar @lengthOf(calculatedFrom) ``,
-    },
+packet Inner {
+    u8 a,
+    i16 b,
+    string c,
 }
-
-root packet lengthOf {
-    @tag(4294967296)
-    A @lengthOf(i64_) `doc`,
-    body @lengthOf(lengthOf) `it's`,
-    zchar[10] i8i8,
-    @calculatedFrom(""" ++ [233]%N ++ runes_of_ascii "t" ++ [233]%N ++ runes_of_ascii """)
-    i64 int `u8 x,`,
-    repeat trueish {
-        string options1,
-        zchar[0123456789] _x `tab	here`,
-        Pad {
-            repeat string repeatCount,
-            repeat string _x,
-            Packet @lengthOf(roots) `
-            `,
-            string crc @calculatedFrom(""abc""),
+packet Inner2 {
+    u8 a2,
+    char[3] c2,
+}
+packet Logon {
+    u8 x,
+    string user,
+    repeat u16 codes,
+}
+packet Logout {
+    u16 reason,
+}
+packet Empty {
+}
+root packet Msg {
+    u8 su8,
+    uint8 luint8,
+    u16 su16,
+    uint16 luint16,
+    u32 su32,
+    uint32 luint32,
+    u64 su64,
+    uint64 luint64,
+    i8 si8,
+    int8 lint8,
+    i16 si16,
+    int16 lint16,
+    i32 si32,
+    int32 lint32,
+    i64 si64,
+    int64 lint64,
+    f32 sf32,
+    float32 lfloat32,
+    f64 sf64,
+    float64 lfloat64,
+    char[6] fsplain,
+    @leftPad('0') char[4] fs0,
+    @rightPad('0') char[5] fs1,
+    @leftPad(' ') char[6] fs2,
+    @rightPad(' ') char[7] fs3,
+    @leftPad('\x00') char[8] fs4,
+    @rightPad('\x00') char[9] fs5,
+    @leftPad() char[10] fs6,
+    @rightPad() char[11] fs7,
+    zchar[7] fz,
+    @leftPad('0') zchar[3] fzl0,
+    string s1 `doc`,
+    char[] s2,
+    Inner,
+    Sub {
+        u8 q,
+        string w,
+        Deep {
+            u16 z,
+            repeat i32 zs,
         },
-        match i8i8 as string_ {
-            // c
-            [""it's""] : options1,
-            //
-            // @lengthOf(
-            ""a	b"" : string_,
-            [""a	b"", 00] : metadata,
-            0 : o,
-            ""\" ++ [233]%N ++ runes_of_ascii """ : Pad,
-        },
     },
-    char[7] i8i8 `tab	here`,
-    roots {
-        repeat uint8 _x `tab	here`,
+    repeat u8 ru8,
+    repeat u16 ru16,
+    repeat u32 ru32,
+    repeat u64 ru64,
+    repeat i8 ri8,
+    repeat i16 ri16,
+    repeat i32 ri32,
+    repeat i64 ri64,
+    repeat f32 rf32,
+    repeat f64 rf64,
+    repeat string rstr,
+    repeat char[] rstr2,
+    repeat char[3] rfs,
+    repeat zchar[3] rfz,
+    repeat Inner2,
+    repeat Grp {
+        u8 k,
+        char[2] v,
     },
-    repeat int64 f32a,
-    match asx as calculatedFrom {
-        65535 : asx,
-        [1] : uint8x,
-        42 : x,
-        [
-            ""x y"", ""1"", ""`tick`"", ""1"", ""1"",
-            ""a	b""
-        ] : MetaDataX,
+    SeqNum,
+    SeqNum seq2,
+    repeat SeqNum seqs,
+    Symbol,
+    AltSymbol alt,
+    ZSym,
+    Note,
+    repeat Symbol syms,
+    Price px,
+    u16 MsgType,
+    u32 BodyLen @lengthOf(Body),
+    match MsgType as Body {
+        1 : Logon,
+        [2, 3] : Logout,
+        7 : Logon,
+        9 : Empty,
     },
-}
-
-MetaData chars {
-}")).
-Eval vm_compute in ("<<<M281>>>" ++ check (runes_of_ascii "// @lengthOf(
-root packet  leftPad{ match Logon as	msg_type { ""it's"" :
-    int , """ ++ [128512]%N ++ runes_of_ascii """
-    :charz ""a\\""
-: options1 , } , @rightPad(
-    ' ') asx `doc`
-, @leftPad( '0' ) uint32 charz, @tag(
-255 ) zchar[ 10 ]Pad ``
-, string  asx	`it's` , }
-packet
-// packet A { u8 x, }
-// trailing space 
-Pad {@lengthOf(lengthOf )
-@lengthOf( crc  )u8x
-    `a\` ,
-float64 f32a  @calculatedFrom(
-""a\""b""
-    ) `it's`  ,@lengthOf(	options1 ) @tag( 42 )@calculatedFrom(
-// a // b
-//x
-""1""	) zchar[ 7 ] repeatCount	`say ""hi""` , @calculatedFrom( ""// no comment"" )
-    //x
-    zchar[ 3] i8i8 @calculatedFrom(
-""// no comment"" ) `" ++ [233]%N ++ runes_of_ascii "`,@tag( //
-65535 )
-    match o
-    as float
-    { [ // @lengthOf(
-10 ]
-    :len } ,@tag(3//x
-)
-match repeatCount as Pad {
-    [ ""// no comment"",
-42 , ""\n""
-,
-    007 , 3
-    , ""// no comment""
-    // c
-    ]
-:
-    calculatedFrom}
-    , u8x
-{ repeat
-    string x `it's` ,	x @calculatedFrom( """ ++ [128512]%N ++ runes_of_ascii """
-)//
-, falsey
-    { match	f32a as// c
-u128 { [ ""it's""
-    //x
-    ,
-    0123456789
-    , 0, """ ++ [233]%N ++ runes_of_ascii "t" ++ [233]%N ++ runes_of_ascii """ ,42 , 65535 // c
-,
-1 , 255 ] :
-    uint8x ,
-0 :asx ,} , repeat packetx u `{ , }` , string Foo	, x @calculatedFrom(
-""a	b"")//	t
-,
-} , o
-    pack
-    , }  , // a // b
-} packet i64_ { repeat
-char[ 3 ]
-a1
-,} options
-    // a // b
-    {	}")).
-Eval vm_compute in ("<<<M365>>>" ++ check (runes_of_ascii "
-packet
-    trueish
-    // @lengthOf(
-    {
-    char[ 7
-]chars @calculatedFrom( """ ++ [128512]%N ++ runes_of_ascii """) , char[] uint8x@calculatedFrom( ""`tick`"" )// c
-`
-` ,  int16 // a // b
-metadata @calculatedFrom( """ ++ [128512]%N ++ runes_of_ascii """// @lengthOf(
-) `doc`, pack @lengthOf( stringy	) , u8
-float @lengthOf( leftPad ) , @lengthOf(
-chars ) f32a
-    trueish, repeat
-    zchar[ //	t
-4294967296 ]
-u  , @leftPad(
-    //
-    ' ' // trailing space 
-)@lengthOf( leftPad ) @tag(
-    7 ) repeat string	u128
-,
-    }
-    packet Header { u64 leftPad
-,	@lengthOf( u128	) repeat uint32
-T
-,@tag( 4294967296
-)repeat uint32
-    x_y_z ``
-    , T	,
-@tag( 1 ) zchar[7]	Packet@lengthOf( f32a  )
-// @lengthOf(
-//x
-, // trailing space 
-float32
-    lengthOf
-, // packet A { u8 x, }
-i32 // " ++ [128512]%N ++ runes_of_ascii " emoji
-calculatedFrom `crlf
-line` ,@tag(0123456789	)
-@tag( 1// trailing space 
-)
-//
-// `tick` ""quote"" 'q'
-@calculatedFrom( """ ++ [128512]%N ++ runes_of_ascii """ ) float32
-lengthOf@calculatedFrom( ""\n"" )
-    `" ++ [233]%N ++ runes_of_ascii "`
-, zchar[ 007 ] zchar @calculatedFrom(
-// a // b
-// packet A { u8 x, }
-""abc""	) `" ++ [28040; 24687; 31867; 22411]%N ++ runes_of_ascii "` /// triple
-,
-int32
-    roots
-,
+    u32 Checksum @calculatedFrom(""CRC32""),
 }
 ")).
-Eval vm_compute in ("<<<M1788>>>" ++ check (runes_of_ascii "options {
-    LittleEndian = true;
-    StringPrefixLenType = u32;
-    FixedStringPadChar = '0';
-}
-
-packet Logout {
-    repeat InMsgkind49 {
-        u8 pad0,
+Eval vm_compute in ("<<<M4061>>>" ++ check (runes_of_ascii "packet Z9_ {
+    string options1 @calculatedFrom(""// no comment"") `{ , }`,
+    @lengthOf(MetaDataX)
+    @tag(1)
+    /// triple
+    @calculatedFrom(""it's"")
+    repeat packetx,
+    uint8x @lengthOf(i8i8) `say ""hi""`,// " ++ [27880; 37322]%N ++ runes_of_ascii "
+    @leftPad(' ')
+    char[7] MetaDataX,
+    @tag(65535)
+    // @lengthOf(
+    trueish {
+        i8i8 repeatCount,
     },
-    repeat char[5] seqNo,
-    repeat u8 price,
+    match body as i8i8 {
+        255 : f32a,
+        ""a\""b"" : int,
+        [""CRC32""] : metadata,
+    },
+    @lengthOf(pack)
+    repeat body {
+        Foo {
+            repeat zchar[65535] string_,
+            zchar len `100% of %d`,
+        },
+        string Z9_,
+        match Packet as trueish {
+            """ ++ [233]%N ++ runes_of_ascii "t" ++ [233]%N ++ runes_of_ascii """ : pack,
+            4294967296 : asx,
+        },
+    },
+    @calculatedFrom(""\n"")
+    //
+    // " ++ [27880; 37322]%N ++ runes_of_ascii "
+    @tag(0)
+    repeat Header {
+        Pad {
+            pack {
+                repeat u16 tag,
+                match calculatedFrom as trueish {
+                    ""abc"" : metadata,
+                    [""it's"", 255] : matchKey,
+                    4294967296 : x_y_z,
+                    [""`tick`""] : asx,
+                },
+            },//	t
+            char[255] pack,// " ++ [128512]%N ++ runes_of_ascii " emoji
+            uint32 BodyLength,
+        },
+        float,
+    },
+    @calculatedFrom(""a\\"")
+    //	t
+    @tag(10)
+    // a // b
+    match falsey as pack {
+        // a // b
+        /// triple
+        7 : x_y_z,
+        [""a	b"", ""packet""] : x_y_z,
+    },
+    lengthOf {
+        int8 uint8x,
+    },
+}// " ++ [27880; 37322]%N ++ runes_of_ascii "
+
+packet A {
 }
 
-packet Party {
-    zchar[7] Qty,
+packet A {
+    // 50% %s
+    @leftPad(' ')
+    @calculatedFrom(""" ++ [233]%N ++ runes_of_ascii "t" ++ [233]%N ++ runes_of_ascii """)
+    MetaDataX @lengthOf(calculatedFrom) `crlf
+    line`,//	t
+}
+
+packet x_y_z {
+    @rightPad(' ')
+    @lengthOf(leftPad)
+    @lengthOf(Header)
+    char[0123456789] metadata,
+}
+
+packet options1 {
+}")).
+Eval vm_compute in ("<<<M742>>>" ++ check (runes_of_ascii "// " ++ [27880; 37322]%N ++ runes_of_ascii "
+options { metadata  = false}
+// packet A { u8 x, }
+// `tick` ""quote"" 'q'
+root packet Packet {
+@calculatedFrom(
+// " ++ [27880; 37322]%N ++ runes_of_ascii "
+//	t
+""CRC32""	) zchar[	1 // @lengthOf(
+] MetaDataX `" ++ [28040; 24687; 31867; 22411]%N ++ runes_of_ascii "`, @leftPad ('0' ) // `tick` ""quote"" 'q'
+match string_
+as leftPad {
+// trailing space 
+// a // b
+[
+255// `tick` ""quote"" 'q'
+,
+""1"" ]
+:
+BodyLength , ""\n"" : charz, } , //x
+zchar[ 65535
+] x @calculatedFrom( ""\n"" ),uint64 //x
+float `two words`  ,	@rightPad (
+    // 50% %s
+    ) @calculatedFrom(
+    ""it's"" )  match calculatedFrom as
+    lengthOf //
+{3 : Z9_, 7
+    : lengthOf 65535
+:
+crc , 7 : packetx , """ ++ [128512]%N ++ runes_of_ascii """:BodyLength""1""// trailing space 
+:Z9_ } , @tag(	10
+) repeat asx
+,@lengthOf( T ) body{u64 metadata // @lengthOf(
+, Pad roots , i64 u `crlf
+line`
+,	} ,	char[ 10	]
+    Foo ,
+    } packet
+// @lengthOf(
+// packet A { u8 x, }
+tag { repeat	leftPad { Packet @calculatedFrom( ""a\\"" )	, } ,
+u16  chars, @leftPad
+    // packet A { u8 x, }
+    ('0')	char[]
+    Logon `{ , }` , match Foo as f32a { 7
+    : u 3 :u
+// " ++ [27880; 37322]%N ++ runes_of_ascii "
+// c
+,
+4294967296
+    // c
+    : roots}
+// c
+//x
+, string  _x @calculatedFrom(""{,}""	) ,
+@leftPad // @lengthOf(
+( ' '
+)repeat trueish u  `it's` ,
+    zchar[
+255 ] rootA
+@calculatedFrom( ""it's"" ) , u
+int
+    ,char[  0 ] o `crlf
+line`
+,
+int8 Logon
+//	t
+// trailing space 
+`
+`
+// " ++ [128512]%N ++ runes_of_ascii " emoji
+// 50% %s
+,
+} root packet
+    asx { } root packet	repeatCount  { @tag(
+    0
+// @lengthOf(
+// a // b
+)@tag( 00)
+    @leftPad ('\x00' ) repeatCount //
+@calculatedFrom(
+""\" ++ [233]%N ++ runes_of_ascii """
+    ) `it's` ,} 	 ")).
+Eval vm_compute in ("<<<M1406>>>" ++ check (runes_of_ascii "options {
+	StringPrefixLenType = u16;
+	ArrayPrefixLenType = u16;
+}
+
+packet SampleBinary {
+    uint16 MsgType `" ++ [28040; 24687; 31867; 22411]%N ++ runes_of_ascii "`,
+    u16 BodyLenght @lengthOf(Body) `" ++ [28040; 24687; 20307; 38271; 24230]%N ++ runes_of_ascii "`,
+    match MsgType as Body {
+        1 : Logon,
+        2 : Logout,
+        3 : Heartbeat,
+        4 : RiskControlRequest,
+        5 : RiskControlResponse,
+    },
+        @calculatedFrom(""CRC32"")
+    u32 Ckecksum `" ++ [26657; 39564; 21644]%N ++ runes_of_ascii "`,
 }
 
 packet Logon {
-    repeat InRef10 {
-        string price,
-        char[] sym,
-        repeat Logout,
-    },
-    repeat char[3] count,
-    repeat Party,
-    char[] tag7,
-    @rightPad('0')
-    char[2] clOrdID,
+     @leftPad('0')
+    char[10] UserName `" ++ [29992; 25143; 21517]%N ++ runes_of_ascii "`,
+    string Password `" ++ [23494; 30721]%N ++ runes_of_ascii "`,
+    uint64 ClientId `" ++ [23458; 25143; 31471]%N ++ runes_of_ascii "ID`,
+    u16 HeartbeatInterval `" ++ [24515; 36339; 38388; 38548]%N ++ runes_of_ascii "`,
 }
 
-packet Order {
-    InTail13 {
-        Party,
-    },
-    repeat char[4] count,
+packet Logout {
+      @rightPad('0')
+    char[10] UserName `" ++ [29992; 25143; 21517]%N ++ runes_of_ascii "`,
+    uint64 ClientId `" ++ [23458; 25143; 31471]%N ++ runes_of_ascii "ID`,
 }
 
-root packet Cancel {
-    Logout,
-    @leftPad('0')
-    char[9] msgKind,
-    string lastPx,
-    string tag7,
-    zchar[1] OrderId,
-    repeat Party,
-    u16 sym,
-    u16 Acct @lengthOf(Body),
-    match sym as Body {
-        [24, 44] : Logout,
-        160 : Order,
-        91 : Logon,
-        43 : Party,
-    },
-    u16 Tail @calculatedFrom(""CR\
-    C32""),
+packet Heartbeat {
+}
+
+packet RiskControlRequest {
+    string UniqueOrderId `" ++ [21807; 19968; 35746; 21333; 21495]%N ++ runes_of_ascii "`,
+    char[16] ClOrdID `" ++ [23458; 25143; 35746; 21333; 21495]%N ++ runes_of_ascii "`,
+    char[3] MarketID `" ++ [24066; 22330]%N ++ runes_of_ascii "id`,
+    char[12] SecurityID `" ++ [35777; 21048; 20195; 30721]%N ++ runes_of_ascii "`,
+    char Side `" ++ [20080; 21334; 26041; 21521]%N ++ runes_of_ascii "`,
+    char OrderType `" ++ [35746; 21333; 31867; 22411]%N ++ runes_of_ascii "`,
+    u64 Price `" ++ [20215; 26684]%N ++ runes_of_ascii "`,
+    u32 Qty `" ++ [25968; 37327]%N ++ runes_of_ascii "`,
+    repeat string ExtraInfo `" ++ [38468; 21152; 20449; 24687]%N ++ runes_of_ascii "`,
+    repeat SubOrder {
+    		char[16] ClOrdID `" ++ [23376; 35746; 21333; 21495]%N ++ runes_of_ascii "`,
+    		u64 Price `" ++ [23376; 35746; 21333; 20215; 26684]%N ++ runes_of_ascii "`,
+    		u32 Qty `" ++ [23376; 35746; 21333; 25968; 37327]%N ++ runes_of_ascii "`,
+    	},
+}
+
+packet RiskControlResponse {
+    string UniqueOrderId `" ++ [21807; 19968; 35746; 21333; 21495]%N ++ runes_of_ascii "`,
+    i32 Status `" ++ [29366; 24577]%N ++ runes_of_ascii "`,
+    string Msg `" ++ [32467; 26524; 20449; 24687]%N ++ runes_of_ascii "`,
+    repeat Detail,
+}
+
+packet Detail {
+    string RuleName `" ++ [35268; 21017; 21517; 31216]%N ++ runes_of_ascii "`,
+    u16 Code `" ++ [21407; 22240; 20195; 30721]%N ++ runes_of_ascii "`,
 }")).
-Eval vm_compute in ("<<<M1445>>>" ++ check (runes_of_ascii "options {
-    LittleEndian = true;
+Eval vm_compute in ("<<<M555>>>" ++ check (runes_of_ascii "  packet a1{
+repeat char[
+    007
+]stringy
+,}packet
+    Foo { stringy	, match _x as
+o
+{ 10 // " ++ [128512]%N ++ runes_of_ascii " emoji
+:	a1
+, } ,  @leftPad
+()
+    // 50% %s
+    Pad@calculatedFrom(""// no comment""//	t
+) , // 50% %s
+repeat a1 a1 `two words`	,
+    i32 falsey `two words` , @calculatedFrom( // trailing space 
+""CRC32""	) x
+@calculatedFrom(
+""\" ++ [233]%N ++ runes_of_ascii """ )`u8 x,` , repeat uint8x {u {	char[]
+u128 // " ++ [27880; 37322]%N ++ runes_of_ascii "
+@lengthOf(
+    leftPad )`{ , }` , roots
+    ,  repeat u16 metadata, }  , } , zchar[
+007
+] BodyLength @calculatedFrom(
+// @lengthOf(
+// c
+""a\\""
+) , // " ++ [27880; 37322]%N ++ runes_of_ascii "
+char[]
+o @lengthOf(f32a ) ,} root packet charz{ @tag(42 ) rootA asx `
+` , a1 { u32 stringy,
+    float	@calculatedFrom( """ ++ [233]%N ++ runes_of_ascii "t" ++ [233]%N ++ runes_of_ascii """	)	`line1
+line2`  ,repeat repeatCount a1  , repeat	msg_type `{ , }` ,}
+    , u @calculatedFrom(
+""CRC32"" ) `line1
+line2`, @lengthOf( f32a ) match
+// @lengthOf(
+//
+zchar as msg_type { [ ""{,}""
+]: chars ""packet"":// " ++ [128512]%N ++ runes_of_ascii " emoji
+As ,
+[ 1,
+""CRC32"",
+""a\""b""
+    , // trailing space 
+0]
+    :
+    tag , } , repeat float32 tag `" ++ [233]%N ++ runes_of_ascii "` //	t
+, @tag( 10 ) string string_
+@calculatedFrom(""x y"" ) `line1
+line2` , @tag( 4294967296
+    )
+repeat char o ,
+    // c
+    repeat
+    zchar[ 42 ]
+msg_type `crlf
+line` , char[  42] /// triple
+BodyLength @calculatedFrom( ""a	b"" ),}")).
+Eval vm_compute in ("<<<M22>>>" ++ check (runes_of_ascii "options {chars =	false } root
+    packet uint8x //
+{ //	t
+@calculatedFrom(
+""" ++ [128512]%N ++ runes_of_ascii """ ) falsey {float32 leftPad// " ++ [27880; 37322]%N ++ runes_of_ascii "
+@calculatedFrom( ""abc"" ) ,
+Z9_ @calculatedFrom(
+""it's"" ) ,// trailing space 
+} ,
+packetx ,
+    leftPad	packetx `a\`,
+    u128 { tag
+    // @lengthOf(
+    `line1
+line2` ,
+T
+{
+    match
+i8i8 as
+// @lengthOf(
+/// triple
+trueish {
+10: msg_type  , } ,
+} ,
+    f32a	uint8x // @lengthOf(
+,
+    } ,
+@calculatedFrom( ""it's"" // a // b
+) int16 u8x
+    @lengthOf( matchKey ) `say ""hi""`  , zchar { u @lengthOf( u128 )
+// a // b
+/// triple
+`" ++ [28040; 24687; 31867; 22411]%N ++ runes_of_ascii "`
+, } ,
+match _x as pack { [
+007	,""a\""b""
+// `tick` ""quote"" 'q'
+// packet A { u8 x, }
+,
+    ""CRC32"" ] : x ,
+    }
+    ,
+repeat char[]
+Z9_`line1
+line2` , @calculatedFrom( ""\n""	)
+calculatedFrom @calculatedFrom(
+""1""
+) , //
+char[ 0 ]
+    body
+    @lengthOf( metadata ) ,
+    } MetaData x
+{ }packet MetaDataX	{ @calculatedFrom(  """" ) @lengthOf( options1 )
+    pack @lengthOf( u8x
+) , Logon @lengthOf( u8x )
+// " ++ [27880; 37322]%N ++ runes_of_ascii "
+// a // b
+, int16	Z9_ `it's` ,}
+    options {
+T
+//x
+// trailing space 
+= true o= ' '
+    matchKey
+    =
+float32
+    matchKey ='\x00' zchar =
+    // 50% %s
+    u8
+    ; }
+")).
+Eval vm_compute in ("<<<M417>>>" ++ check (runes_of_ascii "packet u
+{ match
+Z9_
+as	As	{ ""a\\""
+:calculatedFrom
+    ,""it's""
+    : options1 /// triple
+, 0 :
+    // 50% %s
+    rootA ,  } ,repeat // c
+leftPad// packet A { u8 x, }
+,
+match As as leftPad { [ 4294967296 ,
+"""" , 0123456789 ]
+    :
+    a1 0123456789 : charz 0123456789
+:
+    u128 , }, float @lengthOf( x_y_z ) `100% of %d`
+, }MetaData
+calculatedFrom { matchKey
+    // `tick` ""quote"" 'q'
+    zchar `crlf
+line` , //
+}root	packet
+float
+{ /// triple
+@rightPad ( '0' )u{matchKey // packet A { u8 x, }
+{ u16 tag
+    @lengthOf(
+_x )
+`tab	here`
+    , } ,body @lengthOf( x ) , char[] float `crlf
+line`
+,
+}, @tag(	255 ) //
+match Foo as u128
+//
+// " ++ [128512]%N ++ runes_of_ascii " emoji
+{ 0
+    : f32a 00  :repeatCount	, ""a	b"": Packet ,255 :	f32a} // trailing space 
+, @tag(
+// 50% %s
+// " ++ [27880; 37322]%N ++ runes_of_ascii "
+42 )
+    char[ 65535 ]
+string_ ,
+// packet A { u8 x, }
+// 50% %s
+@tag( 3 )
+    char[] u128 , @tag( 3 )char[0
+]
+    u128
+    @lengthOf( calculatedFrom
+) //	t
+`two words`  ,
+}
+    packet tag {@lengthOf(
+repeatCount	) matchKey // c
+{repeat char[
+1 ]	float ,} ,/// triple
+}
+    root packet packetx { }
+")).
+Eval vm_compute in ("<<<M1110>>>" ++ check (runes_of_ascii "MetaData // trailing space 
+options1 {As
+    string_ ,
+}
+// trailing space 
+// " ++ [128512]%N ++ runes_of_ascii " emoji
+packet pack
+    { i16
+    int
+    `// not a comment` ,
+char[ 0123456789 ]
+    Header @calculatedFrom(
+    // packet A { u8 x, }
+    ""packet""	)
+`100% of %d`
+    //x
+    ,// a // b
+match Pad as T { [  007 ] :
+    repeatCount
+, }
+    // c
+    ,
+    // " ++ [27880; 37322]%N ++ runes_of_ascii "
+    Logon@calculatedFrom( ""a	b""  ) , match BodyLength
+as
+stringy
+{ [42 ] // " ++ [128512]%N ++ runes_of_ascii " emoji
+: calculatedFrom
+,65535 :
+pack ""\n"" :repeatCount
+[ 1 // " ++ [128512]%N ++ runes_of_ascii " emoji
+,
+""a\\"" , ""\" ++ [233]%N ++ runes_of_ascii """// c
+,10
+] //	t
+:
+BodyLength
+// @lengthOf(
+//	t
+[ """ ++ [128512]%N ++ runes_of_ascii """ ,""a\\""
+    ,
+""\" ++ [233]%N ++ runes_of_ascii """ , """ ++ [28040; 24687]%N ++ runes_of_ascii """ , ""{,}""
+, """ ++ [28040; 24687]%N ++ runes_of_ascii """ ,""x y""] : asx//	t
+, ""`tick`"" :
+    // `tick` ""quote"" 'q'
+    int,}
+    , @tag( 255 )
+repeatCount
+// " ++ [27880; 37322]%N ++ runes_of_ascii "
+/// triple
+@lengthOf(
+    chars )
+,
+    // " ++ [128512]%N ++ runes_of_ascii " emoji
+    @rightPad  (
+)
+    // packet A { u8 x, }
+    @lengthOf(i8i8
+    //	t
+    ) @calculatedFrom( """ ++ [28040; 24687]%N ++ runes_of_ascii """
+    )
+    //
+    int8 uint8x
+    , float32 // c
+lengthOf  `line1
+line2`,@tag( 4294967296
+    )string leftPad
+    `u8 x,` ,  }
+")).
+Eval vm_compute in ("<<<M881>>>" ++ check (runes_of_ascii "packet u {
+    // c
+    @lengthOf(metadata ) int64 MetaDataX `say ""hi""` // trailing space 
+, pack @lengthOf(  i8i8 )
+`say ""hi""`
+,
+    float { repeat char[] BodyLength `" ++ [233]%N ++ runes_of_ascii "` , zchar[
+// " ++ [128512]%N ++ runes_of_ascii " emoji
+// a // b
+1 // packet A { u8 x, }
+] metadata//x
+`a\`,	a1
+// trailing space 
+// `tick` ""quote"" 'q'
+@calculatedFrom(""x y""
+    // trailing space 
+    ) ,} ,	repeat float64 tag
+    `doc` ,
+} options	{repeatCount
+    = 00; stringy= zchar[ 0
+] ;}root
+    packet i8i8 {
+    @rightPad ( ' '
+// `tick` ""quote"" 'q'
+// a // b
+)
+    a1 ,	@tag(
+    // " ++ [27880; 37322]%N ++ runes_of_ascii "
+    10
+)zchar[00
+]
+string_
+    ,  @lengthOf(//x
+Packet )  match Packet as //
+asx
+//
+//	t
+{[ 42 ,
+    ""\" ++ [233]%N ++ runes_of_ascii """ ] :
+lengthOf, 65535 : falsey } ,body leftPad	,} packet
+    //
+    x_y_z { @calculatedFrom(""// no comment"" ) repeat a1  {
+roots MetaDataX
+`it's` , } // a // b
+,
+body
+{ repeat char[ 10  ]pack`{ , }`, } , @calculatedFrom( ""\n""
+    )
+@tag(
+00 )
+@leftPad (
+    // " ++ [27880; 37322]%N ++ runes_of_ascii "
+    '0'
+) uint32 uint8x , }
+")).
+Eval vm_compute in ("<<<M4191>>>" ++ check (runes_of_ascii "packet int {
+    repeat calculatedFrom {
+        zchar[255] stringy @calculatedFrom(""1""),
+    },
+    pack @lengthOf(i8i8) `// not a comment`,
+    @calculatedFrom(""abc"")
+    // c
+    @rightPad(' ')
+    @lengthOf(MetaDataX)
+    BodyLength `// not a comment`,
+    f32 pack,
+    repeat int64 Z9_,
+}
+
+options {
+}
+
+root packet A {
+    o int,
+    repeat repeatCount len `{ , }`,
+    @lengthOf(len)
+    repeat char[1] f32a `two words`,
+    i16 crc,
+}
+
+root packet _x {
+    /// triple
+    match metadata as crc {
+        ""it's"" : BodyLength,
+        // 50% %s
+    },
+    @lengthOf(string_)
+    repeat x leftPad ``,
+    repeat zchar[0] leftPad `two words`,
+    Logon `// not a comment`,
+    float roots `100% of %d`,
+}
+
+MetaData calculatedFrom {
+    char rootA,
+    // packet A { u8 x, }
+    // packet A { u8 x, }
+    char[] packetx `line1
+        line2`,
+    int8 metadata,// packet A { u8 x, }
+}")).
+Eval vm_compute in ("<<<M1118>>>" ++ check (runes_of_ascii "packet roots{
+    @rightPad ('\x00' ) /// triple
+@tag(
+255 )string_ `
+` /// triple
+,	@rightPad ( ' ') char[
+// " ++ [27880; 37322]%N ++ runes_of_ascii "
+//	t
+0123456789
+]
+a1 ,
+    @tag(
+    65535
+    ) repeat
+string charz
+    , match
+T as stringy{ 10:
+float , 0
+:string_
+10 :crc	, 7 : //	t
+chars, 7
+: body ,
+    }	, // trailing space 
+repeat crc
+`crlf
+line` ,int32 pack
+    // trailing space 
+    @lengthOf(
+string_ ) `crlf
+line` , As@calculatedFrom(
+""{,}"" ) , }packet  rootA { }	packet
+u8x {@rightPad
+( ) match a1 as chars	{  """ ++ [28040; 24687]%N ++ runes_of_ascii """  :a1, [ ""abc""] :
+    x_y_z	10 : packetx , [ ""a\""b""  , ""1""	] : float, ""`tick`"": crc ,
+} // c
+,@tag( 42 )@tag(
+    42  )
+// " ++ [128512]%N ++ runes_of_ascii " emoji
+// c
+crc x , matchKey, match rootA
+as int
+{ 0123456789	: uint8x
+    //	t
+    , ""1"" : BodyLength
+    , // 50% %s
+42	: crc
+    // " ++ [27880; 37322]%N ++ runes_of_ascii "
+    ,// trailing space 
+""1"":
+    zchar
+    ,// packet A { u8 x, }
+"""":
+    chars, } , }")).
+Eval vm_compute in ("<<<M4541>>>" ++ check (runes_of_ascii "root packet stringy {
+    string repeatCount `two words`,
+    match A as tag {
+        [""" ++ [28040; 24687]%N ++ runes_of_ascii """] : i8i8,
+        42 : u8x,
+        [65535] : MetaDataX,
+        ""// no comment"" : leftPad,
+        // `tick` ""quote"" 'q'
+    },
+    @tag(0)
+    int8 Packet,
+    @calculatedFrom(""" ++ [128512]%N ++ runes_of_ascii """)
+    @calculatedFrom(""a	b"")
+    @rightPad('\x00')
+    trueish,
+    match int as zchar {
+        [
+            65535, 42, 3, ""`tick`"", 0,
+            ""a\\""
+        ] : T,
+        [4294967296] : falsey,
+        65535 : falsey,
+        // packet A { u8 x, }
+        [
+            ""a\""b"", ""a	b"", 0, 42, ""x y"",
+            ""a\""b""
+        ] : body,
+        ""packet"" : float,
+    },
+    @tag(255)
+    leftPad @lengthOf(msg_type),
+    @lengthOf(As)
+    zchar[0123456789] Packet,
+    zchar[42] Pad,
+}
+
+packet Logon {
+    repeat i16 falsey `a\`,
+}")).
+Eval vm_compute in ("<<<M3358>>>" ++ check (runes_of_ascii "// top
+packet
+    // c0
+stringy // c1a
+  // c1b
+{ // c2
+BodyLength // c3a
+  // c3b
+`crlf
+line` // c4
+,
+    // c5
+@calculatedFrom(
+    // c6
+""`tick`""
+    // c7
+)
+    // c8
+zchar[
+    // c9
+007 // c10
+] // c11
+Header // c12a
+  // c12b
+,
+    // c13
+@lengthOf( body ) // c16a
+  // c16b
+zchar[ 42
+    // c18
+] // c19
+pack // c20a
+  // c20b
+, }
+    // c22
+packet // c23
+Z9_ // c24
+{
+    // c25
+@lengthOf( // c26a
+  // c26b
+i64_ // c27
+) // c28
+char[ // c29
+255
+    // c30
+] // c31
+u // c32a
+  // c32b
+`u8 x,` , // c34a
+  // c34b
+@lengthOf( MetaDataX // c36a
+  // c36b
+) // c37a
+  // c37b
+@calculatedFrom(
+    // c38
+""\n""
+    // c39
+) // c40
+float32
+    // c41
+Z9_ // c42
+, // c43a
+  // c43b
+} options
+    // c45
+{
+    // c46
+_x // c47
+= // c48
+""it's"" ; // c50
+} // c51a
+  // c51b
+")).
+Eval vm_compute in ("<<<M995>>>" ++ check (runes_of_ascii "packet
+trueish { @tag(0123456789	) string stringy , repeat rootA
+    { zchar[ 42 ]	falsey @calculatedFrom(""x y""// c
+) `two words` ,
+} , }//
+packet As { @tag(	1 ) char[]T
+, o@lengthOf( chars /// triple
+) ,  rootA`line1
+line2` ,  repeat
+stringy,
+    msg_type
+BodyLength
+, char[
+3 ]
+    falsey`doc` //	t
+, char[]
+pack `u8 x,`
+, a1 @lengthOf( Z9_ ) ,
+char[]
+pack @lengthOf( repeatCount ) `crlf
+line` , @lengthOf( Logon)
+    float
+{repeatCount uint8x ,	} , }packet
+    body {@rightPad //x
+( '0'
+    ) repeat int32 int , @leftPad(  ) @leftPad ( ' ' ) f32a , @lengthOf(rootA
+) repeat pack `tab	here`/// triple
+, // 50% %s
+@lengthOf(
+i8i8 ) i64_ , Packet stringy`it's` ,u32 stringy
+    //
+    , @leftPad ( ' '
+) int
+    metadata ,
+}
+")).
+Eval vm_compute in ("<<<M3570>>>" ++ check (runes_of_ascii "options {
     StringPrefixLenType = u64;
     ArrayPrefixLenType = u8;
+    FixedStringPadFromLeft = true;
     FixedStringPadChar = '0';
 }
-packet Reject {
-    i32 Ref,
-    repeat f64 OrderId,
-    repeat InNote12 {
-        u8 pad0,
-    },
-    @leftPad(' ') char[6] count,
+packet Ack {
+    @rightPad('0') char[7] Px,
+    u64 msgKind,
+    i8 x,
 }
-packet Logout {
-    zchar[6] Tail,
-    repeat string venue,
+packet Party {
+    i8 sym,
+    repeat Ack,
+    repeat InPx10 {
+        repeat Ack,
+        zchar[1] Ref,
+        uint64 Qty,
+        u16 tag7,
+    },
+    int8 clOrdID,
 }
-packet Cancel {
-    u64 count,
-    repeat char[5] lastPx,
-    i64 Tail,
-    repeat InF140 {
-        repeat Logout,
-        repeat Reject,
-    },
+packet Fill {
 }
-root packet Trade {
-    repeat InMsgkind39 {
-        repeat Reject,
-        char[4] Px,
+packet Order {
+}
+root packet Quote {
+    Order,
+    @leftPad('0') char[1] Side2,
+    string venue,
+    char[7] lastPx,
+    u16 tag7,
+    u32 clOrdID,
+    match clOrdID as Body {
+        30 : Order,
+        196 : Party,
+        10 : Fill,
+        28 : Ack,
     },
-    string Acct,
-    uint16 price,
-    f32 OrderId,
-    u16 x,
-    u16 clOrdID @lengthOf(Body),
-    match x as Body {
-        178 : Logout,
-        13 : Cancel,
-        174 : Reject,
-    },
-    u16 Flags @calculatedFrom(""CR\
-C32""),
+    u32 sym @calculatedFrom(""CRC32""),
 }
 ")).
-Eval vm_compute in ("<<<M1594>>>" ++ check (runes_of_ascii "packet body {
-    @tag(0123456789)
-    repeatCount {
-        // @lengthOf(
-        i32 roots @calculatedFrom(""it's""),
-        char[] repeatCount @calculatedFrom(""packet"") `two words`,
-        repeat u16 roots,
-        match lengthOf as As {
-            [""packet"", """ ++ [28040; 24687]%N ++ runes_of_ascii """, 255, 42, ""\" ++ [233]%N ++ runes_of_ascii """] : x_y_z,
-        },
-    },
-    trueish,
-    @tag(65535)
-    @tag(255)
-    /// triple
-    @tag(00)
-    chars @calculatedFrom(""it's""),
-    match o as roots {
-        // " ++ [27880; 37322]%N ++ runes_of_ascii "
-        // c
-        ""{,}"" : options1,
-        """ ++ [28040; 24687]%N ++ runes_of_ascii """ : lengthOf,
-        00 : pack,
-        [""a\""b""] : msg_type,
-        1 : i8i8,
-        [10, 3, """"] : falsey,
-    },
-}
-
-root packet Z9_ {
-    repeat char[] Packet,
-    string chars @calculatedFrom(""a\""b"") `// not a comment`,
-}")).
-Eval vm_compute in ("<<<M42>>>" ++ check (runes_of_ascii "packet Header { @lengthOf( BodyLength)string body	@lengthOf(	zchar	)  `two words` , @lengthOf( rootA )i32 metadata `it's` ,
-    @tag( 00 ) // trailing space 
-msg_type@lengthOf( // " ++ [27880; 37322]%N ++ runes_of_ascii "
-As )  ,
-int { repeat string
-//
-//	t
-u128 `" ++ [233]%N ++ runes_of_ascii "`,
-    match MetaDataX as packetx {[ 1	,0] : MetaDataX
-    , ""{,}"" :calculatedFrom ,} ,
-    // trailing space 
-    match asx as Logon  {
-7 :uint8x  , 00 : x_y_z
-,
-    ""\" ++ [233]%N ++ runes_of_ascii """
-    : o ,""" ++ [233]%N ++ runes_of_ascii "t" ++ [233]%N ++ runes_of_ascii """
-:chars /// triple
-, } , body
-// `tick` ""quote"" 'q'
-// a // b
-i64_ `crlf
-line` , },	a1
-    `line1
-line2`  ,
-// `tick` ""quote"" 'q'
-// a // b
-chars `// not a comment`	,@tag( 7
-    )
-leftPad charz	, int64 a1 @calculatedFrom(
-""\n""
-)  ,
-}")).
-Eval vm_compute in ("<<<M1472>>>" ++ check (runes_of_ascii "packet Sub
-    // c1
-{ // c2
-u8 a // c4a
-  // c4b
-, // c5
-@calculatedFrom( // c6
-""CRC16"" ) // c8
-i16
-    // c9
-SubSum
-    // c10
-, } // c12a
-  // c12b
-root
-    // c13
-packet // c14
-Frame { u16 // c17a
-  // c17b
-MsgType // c18a
-  // c18b
-, // c19
-u16 BodyLen @lengthOf( // c22
-Body
-    // c23
-) // c24a
-  // c24b
-, // c25a
-  // c25b
-Sub // c26a
-  // c26b
-Body // c27
-, // c28
-string
-    // c29
-note // c30
-, // c31
-@calculatedFrom( // c32
-""CRC16"" // c33a
-  // c33b
-) // c34
-i16 // c35a
-  // c35b
-Checksum ,
-    // c37
-u8
-    // c38
-tail , // c40
-} ")).
-Eval vm_compute in ("<<<M350>>>" ++ check (runes_of_ascii "packet uint8x{ string_	{ repeat zchar
-    {
-// `tick` ""quote"" 'q'
-//x
-match u128
-as A{42 : pack
-    , }, // " ++ [27880; 37322]%N ++ runes_of_ascii "
-int64  u128	, repeatCount `it's` // trailing space 
-, string asx
-//	t
-//	t
-@calculatedFrom( ""a\""b"" ) , }
-    ,
-matchKey
-@calculatedFrom( ""1"" ) , } ,
-match o as
-Z9_
-{
-    // a // b
-    [ 7	] : uint8x ,
-[ 00 // `tick` ""quote"" 'q'
-,// " ++ [128512]%N ++ runes_of_ascii " emoji
-""" ++ [233]%N ++ runes_of_ascii "t" ++ [233]%N ++ runes_of_ascii """  , ""\" ++ [233]%N ++ runes_of_ascii """// trailing space 
-]  : Packet ,// a // b
-} ,f32
-A, }root
-    packet Foo{	repeat	float32	msg_type , }
-")).
-Eval vm_compute in ("<<<M253>>>" ++ check (runes_of_ascii "packet pack
-{ @rightPad (' ' ) A// c
-@calculatedFrom( ""a\\"" )
-// " ++ [128512]%N ++ runes_of_ascii " emoji
-// " ++ [128512]%N ++ runes_of_ascii " emoji
+Eval vm_compute in ("<<<M788>>>" ++ check (runes_of_ascii "MetaData calculatedFrom//	t
+{ i64 packetx `
+` , } packet  f32a {
+zchar { match
+MetaDataX as As { 42 : len
+    // `tick` ""quote"" 'q'
+    , """ ++ [28040; 24687]%N ++ runes_of_ascii """ : zchar
+    , [ ""{,}""
+    , """ ++ [233]%N ++ runes_of_ascii "t" ++ [233]%N ++ runes_of_ascii """
+    ,007
+, 7
+    // packet A { u8 x, }
+    ] :
+x
+,  } , repeat
+zchar[ 0 // " ++ [27880; 37322]%N ++ runes_of_ascii "
+] zchar,string_
 `
-` , u8
-    f32a, zchar[007 ] rootA
-    `u8 x,`, repeat
-/// triple
-// a // b
-string u128 //
-`u8 x,`, @leftPad( ' ' ) char[ 1 ] repeatCount@calculatedFrom( //x
-""\n"" ) `doc`,
-    o
+`
+    , char[]
+string_ , }
 ,
-falsey
-    leftPad,@calculatedFrom(""a\""b"") @leftPad
-    ('0' )
-//
-// " ++ [27880; 37322]%N ++ runes_of_ascii "
-roots	{
-u8
-zchar @lengthOf(	Logon ) // trailing space 
+@leftPad
+() u64  _x ,
+@lengthOf(u128
+) @calculatedFrom( ""packet"") @leftPad(' ' )
+repeat int ,@calculatedFrom( ""packet"" )
+msg_type/// triple
 ,
+int32 leftPad `100% of %d`,
+    @lengthOf(  calculatedFrom )
+zchar @calculatedFrom(	""\n"")	,string chars
+@lengthOf( matchKey )
+`doc`	, //	t
+} MetaData body
+{ char matchKey `a\` , char[] falsey , char[ 42]float
+, }")).
+Eval vm_compute in ("<<<M943>>>" ++ check (runes_of_ascii "
+root packet metadata // a // b
+{ repeat // a // b
+char[]f32a ,  repeat u /// triple
+chars  ,	Packet
+    //x
+    ,
+@lengthOf( Z9_
+// `tick` ""quote"" 'q'
 // c
-//	t
-} , }")).
-Eval vm_compute in ("<<<M203>>>" ++ check (runes_of_ascii "/// triple
-packet Logon
-{ char[
-1
-    ] T // packet A { u8 x, }
-,repeat f32a{ repeat
-    options1 , //x
-zchar[ 007
-    ]Z9_
-    ,  u64 packetx, // @lengthOf(
-charz  ,
-} ,crc  Packet ,
-@lengthOf( charz //x
-) @leftPad (
-    ' ' ) float64 i8i8`{ , }`
-//	t
-//x
-, }
-MetaData // a // b
-a1  {
-    u8 len  `say ""hi""` ,
-len Logon //x
-`` ,char[] pack
-,
-    char
-    body, }
-")).
-Eval vm_compute in ("<<<M1589>>>" ++ check (runes_of_ascii "  options
-
-    {LittleEndian 
-=
-true ;	} packet
-	Logon { u8
-	x, 
-}
-packet Logout{u16 reason	,
-
-    }
-	root
-
-packet
-
-    Frame
-    {i32
-	Kind
-,
-i32
-
-    Kind2
-,
-match
-
-    Kind	as
-
-    Body
-{
-1
-
-:
-
-    Logon
-
-, [ 2
-,	3
-	, 
-4
-
-]	:Logout
-, 100: Logon 
-, },	match Kind2  as Trailer  { 0 
-: Logout ,
-	}
-    , 
-}
-
-")).
-Eval vm_compute in ("<<<M1250>>>" ++ check (runes_of_ascii "packet calculatedFrom // c1
-{ @tag( // c3a
-  // c3b
-4294967296 // c4
-) // c5
-u // c6a
-  // c6b
-msg_type
-    // c7
-,
-    // c8
-char[ // c9
-3
-    // c10
-]
-    // c11
-crc
-    // c12
-@lengthOf( // c13a
-  // c13b
-len // c14a
-  // c14b
-) // c15a
-  // c15b
-`u8 x,`
-    // c16
-, // c17
-}
-    // c18
-")).
-Eval vm_compute in ("<<<M1366>>>" ++ check (runes_of_ascii "// top
-options // c0a
-  // c0b
-{ LittleEndian = // c3a
-  // c3b
-true ; // c5a
-  // c5b
-} // c6
-root
-    // c7
-packet P
-    // c9
-{ u16
-    // c11
-a , u32 // c14a
-  // c14b
-Sum @calculatedFrom( // c16a
-  // c16b
-""CRC32"" // c17
-) , // c19
-} // c20a
-  // c20b
-")).
-Eval vm_compute in ("<<<M499>>>" ++ check (runes_of_ascii "options
-{
-matchKey = 42/// triple
-x='0' ;
-// packet A { u8 x, }
-//
-charz
-=
-// packet A { u8 x, }
-// trailing space 
-true  ; } MetaData BodyLength
-{
-uint8
-pack,zchar[ 1@calculatedFrom(float ,  float32 x_y_z `` ,u32
-_x,i16 body  , }
-")).
-Eval vm_compute in ("<<<M257>>>" ++ check (runes_of_ascii "packet
-float { f64 float `u8 x,` ,
-// " ++ [27880; 37322]%N ++ runes_of_ascii "
-//	t
-@tag(
-1 )len tag `crlf
-line`
-, } root packet u	{ o x `it's` , @rightPad
-    ( ) repeat zchar[
-00]	Foo ,
+) match len as
+    a1
+{""packet"": BodyLength
+,}
     // trailing space 
-    }root
-packet// `tick` ""quote"" 'q'
-string_{}
-
-")).
-Eval vm_compute in ("<<<M447>>>" ++ check (runes_of_ascii "options
-{
-matchKey = 42/// triple
-x='0' ;
-// packet A { u8 x, }
-//
-charz
-=
-// packet A { u8 x, }
-// trailing space 
-true  ; ; } MetaData BodyLength
-{
-uint8
-pack,zchar[ 1]float ,  float32 x_y_z `` ,u32
-_x,i16 body  , }
-")).
-Eval vm_compute in ("<<<M576>>>" ++ check (runes_of_ascii "options
-{
-matchKey = 42/// triple
-x='0' ;
-// packet A { u8 x, }
-//
-charz
-=
-// packet A { u8 x, }
-// trailing space 
-true  ; } MetaData BodyLength
-{
-uint8
-pack,zchar[ 1]float ,  float32 x_y_z @`` ,u32
-_x,i16 body  , }
-")).
-Eval vm_compute in ("<<<M519>>>" ++ check (runes_of_ascii "options
-{
-matchKey = 42/// triple
-x='0' ;
-// packet A { u8 x, }
-//
-charz
-=
-// packet A { u8 x, }
-// trailing space 
-true  ; } MetaData BodyLength
-{
-uint8
-pack,zchar[ 1]float ,  float32 match `` ,u32
-_x,i16 body  , }
-")).
-Eval vm_compute in ("<<<M444>>>" ++ check (runes_of_ascii "options
-{
-matchKey = 42/// triple
-x='0' ;
-// packet A { u8 x, }
-//
-charz
-=
-// packet A { u8 x, }
-// trailing space 
-}  ; } MetaData BodyLength
-{
-uint8
-pack,zchar[ 1]float ,  float32 x_y_z `` ,u32
-_x,i16 body  , }
-")).
-Eval vm_compute in ("<<<M27>>>" ++ check (runes_of_ascii "packet
-    MetaDataX {
-    match Header as // a // b
-zchar { 0
-: pack	[ 42
-// packet A { u8 x, }
-// c
-,	65535 ]
-:
-crc } , // @lengthOf(
-@tag(
-    1 )@rightPad (' ' // " ++ [27880; 37322]%N ++ runes_of_ascii "
+    ,
+match metadata as
+u { ""a\""b"" : Packet
+    ,[ 10 // c
+,
+    """ ++ [128512]%N ++ runes_of_ascii """]
+    : Logon, 255  :  _x
+// " ++ [27880; 37322]%N ++ runes_of_ascii "
+// `tick` ""quote"" 'q'
+10
+    : asx,
+    //x
+    """ ++ [233]%N ++ runes_of_ascii "t" ++ [233]%N ++ runes_of_ascii """ : chars 0123456789
+    // " ++ [27880; 37322]%N ++ runes_of_ascii "
+    : // trailing space 
+T
+, }/// triple
+, // packet A { u8 x, }
+repeat i16 i64_ ,@tag(0 // @lengthOf(
+) u8x { crc @lengthOf( x
 )
-int64  Foo, } // packet A { u8 x, }")).
-Eval vm_compute in ("<<<M1345>>>" ++ check (runes_of_ascii "// top
-root // c0
-packet // c1
-P
-    // c2
-{ hdr
-    // c4
-{ // c5
-u8 // c6
-a
-    // c7
-, // c8a
-  // c8b
-} // c9a
-  // c9b
-, // c10
-u8 // c11a
-  // c11b
-x // c12a
-  // c12b
-, // c13
-} // c14
+    , } ,char[]string_	`tab	here`	, string	Packet ,  @tag(
+4294967296)
+    char[10] chars
+,
+}
 ")).
-Eval vm_compute in ("<<<M1423>>>" ++ check (runes_of_ascii "
+Eval vm_compute in ("<<<M1370>>>" ++ check (runes_of_ascii "options  {
+lengthOf =  7 ; charz =
+i64 ; o
+=7
+}root packet trueish { repeat  i16 rootA `" ++ [233]%N ++ runes_of_ascii "` ,@calculatedFrom( """" )  zchar[
+4294967296
+    ]
+a1
+    @calculatedFrom( ""\n"") `tab	here` ,
+match u8x as stringy
+{007 :
+chars , [
+""`tick`"" , ""{,}"" , ""{,}"" , ""\" ++ [233]%N ++ runes_of_ascii """ ,
+""a\""b""
+    // " ++ [27880; 37322]%N ++ runes_of_ascii "
+    ,
+00 ,
+""// no comment"",""" ++ [28040; 24687]%N ++ runes_of_ascii """ ]  : rootA , 0 // `tick` ""quote"" 'q'
+: rootA
+, 255 :Header }
+,
+//x
+// trailing space 
+} // @lengthOf(
+root packet	metadata {
+    @leftPad ( ' '	) match i8i8 as len {
+[""a\""b""
+    ] : calculatedFrom
+1 : asx,""CRC32""
+:string_ """ ++ [128512]%N ++ runes_of_ascii """ :
+x_y_z
+    , ""a\\"" :options1 , [ 10
+    ] : falsey
+, }  ,repeat o T
+    ,}
+")).
+Eval vm_compute in ("<<<M3940>>>" ++ check (runes_of_ascii "packet
+    BodyLength
+    {
+@rightPad( 
+' '
+)
 
-  packet
+@rightPad( '0'
 
-u128 { u8	a 
+) char[]
+    // `tick` ""quote"" 'q'
+
+x_y_z@calculatedFrom( ""CRC32"" 
+) `{ , }` 
+,zchar[007 ] 
+o 
+//
+`" ++ [28040; 24687; 31867; 22411]%N ++ runes_of_ascii "`	,u16
+Pad,
+	    // trailing space 
+}
+
+    packet Pad{  // `tick` ""quote"" 'q'
+
+	uint64 matchKey	// a // b
+    @lengthOf( calculatedFrom 
+)
+
+    , match	body	as	crc	//x
+  {0123456789 :  u8x
+
+,
+[
+// " ++ [128512]%N ++ runes_of_ascii " emoji
+    	""`tick`"",
+""\n""
+]  :  falsey
+	,	00	// @lengthOf(
+    :  Pad	,
+	""a	b""  :
+
+    u128
+[ ""it's""  /// triple
+
+  , 	 //	t
+	65535 ,""1""
+,1// 50% %s
+    ] :
+    lengthOf  , 
+}	//	t
+    	, }	/// triple")).
+Eval vm_compute in ("<<<M1184>>>" ++ check (runes_of_ascii "packet
+falsey
+{ @lengthOf(
+asx// 50% %s
+) zchar[ 0 ]  Logon
+@calculatedFrom(
+    """"
+)`// not a comment` ,} packet
+rootA { @calculatedFrom(  ""x y""
+) i32 // trailing space 
+T @calculatedFrom( """ ++ [128512]%N ++ runes_of_ascii """ )`" ++ [28040; 24687; 31867; 22411]%N ++ runes_of_ascii "` //
+, @tag(0  )T
 ,}
 root
-packet Msg 
-{	u8
-	k
-, u24 {
-
-    u8 Hi	,  u16
-Lo
-    , 
-} ,
-repeat i24
+    packet Logon
 {
+lengthOf @lengthOf( asx )
+, body{ repeat string// c
+roots	`// not a comment` , repeat uint8 _x ,char[] Header @lengthOf( trueish
+) , u8
+a1 @calculatedFrom( ""a\""b"" )
+``, }
+    , @lengthOf( lengthOf
+    ) @lengthOf(T
+    )
+    pack  calculatedFrom , }
+    MetaData repeatCount{ f64
+body ,uint32
+    pack, }
+")).
+Eval vm_compute in ("<<<M1008>>>" ++ check (runes_of_ascii "
+root packet matchKey {  @calculatedFrom(""" ++ [28040; 24687]%N ++ runes_of_ascii """ ) charz
+    `two words` ,  } packet
+    Logon { @rightPad ( ) u64 stringy @calculatedFrom(
+    //x
+    """ ++ [128512]%N ++ runes_of_ascii """) ``
+,
+}
+packet lengthOf{} packet
+MetaDataX{
+    char[007
+    ] a1, } packet int { repeat char[ 0123456789 ] Foo
+    // trailing space 
+    ,a1	,@rightPad
+( '0' )	u64 A `it's`//
+,float len
+    `" ++ [28040; 24687; 31867; 22411]%N ++ runes_of_ascii "` ,	float32
+    o
+    @lengthOf(Header )
+, char[ 65535 ] Packet `two words`
+    , zchar[1
+] x_y_z ,repeat f64 BodyLength `100% of %d` ,
+string zchar@lengthOf(a1)
+`" ++ [233]%N ++ runes_of_ascii "`
+    // " ++ [27880; 37322]%N ++ runes_of_ascii "
+    , }")).
+Eval vm_compute in ("<<<M207>>>" ++ check (runes_of_ascii "root
+    packet metadata{ u
+    ,
+} options
+// trailing space 
+// c
+{ metadata = char[]
+}
+packet roots{	}
+    packet stringy
+{
+    @lengthOf( Pad
+)
+    u8 a1
+    /// triple
+    `say ""hi""` ,i32
+    string_ `doc`
+    ,  @leftPad
+    ( '0' ) // `tick` ""quote"" 'q'
+i64_ @calculatedFrom( ""a	b""
+) `" ++ [233]%N ++ runes_of_ascii "` , A //x
+{match f32a as
+    // @lengthOf(
+    pack
+{ ""\" ++ [233]%N ++ runes_of_ascii """ :
+len , 7 :// " ++ [27880; 37322]%N ++ runes_of_ascii "
+f32a""a	b"" :i8i8 } , repeat
+u128 u
+, } ,repeat char[ 7 ]options1,
+uint32
+    int , u64 calculatedFrom @calculatedFrom( ""{,}""
+//	t
+//x
+) , //x
+}
+")).
+Eval vm_compute in ("<<<M530>>>" ++ check (runes_of_ascii "MetaData a1 { char[0123456789 ] x , }packet metadata{
+    repeat
+Header{
+    // " ++ [27880; 37322]%N ++ runes_of_ascii "
+    char[] string_ `a\` , Z9_, } , // 50% %s
+@lengthOf(
+repeatCount)
+float
+    @calculatedFrom( //
+""packet"" ), tag { char[
+    65535 ] roots,
+char[]
+pack
+,
+repeat i64 options1 ,
+    }
+// " ++ [27880; 37322]%N ++ runes_of_ascii "
+//x
+, match asx as leftPad{
+["""" ,
+""\n"" ,
+0123456789 ,
+    007,	""`tick`"", 4294967296 , """ ++ [233]%N ++ runes_of_ascii "t" ++ [233]%N ++ runes_of_ascii """
+,
+""" ++ [128512]%N ++ runes_of_ascii """
+]
+    : pack ,  7 :trueish ,[ ""it's"" ]
+:
+u128 ,	""// no comment"" :
+    float
+,  ""a	b"": body ,007 :Packet , } ,
+    }
+")).
+Eval vm_compute in ("<<<M1189>>>" ++ check (runes_of_ascii "  packet  matchKey
+{
+@calculatedFrom( ""it's"" )u128 { repeat msg_type{pack u
+`// not a comment` , charz @calculatedFrom( """" ) , match int	as
+float {
+    ""abc"" : As , 4294967296
+: stringy 255 : rootA	}
+    ,
+    repeat
+falsey{falsey charz
+`crlf
+line`
+, repeat
+    uint64 x_y_z`it's`
+// trailing space 
+/// triple
+, i8i8 `" ++ [28040; 24687; 31867; 22411]%N ++ runes_of_ascii "`
+,uint64 As //	t
+@lengthOf(	trueish ) `crlf
+line` , }, }, } ,
+packetx
+As
+    ,
+    // " ++ [128512]%N ++ runes_of_ascii " emoji
+    @lengthOf( charz ) uint8x
+    u `` ,}
+")).
+Eval vm_compute in ("<<<M928>>>" ++ check (runes_of_ascii "root
+packet msg_type {
+    Header { match body
+as msg_type {
+[ // trailing space 
+3, 7 ] :
+x //
+, },	match
+    lengthOf as
+stringy{ 10 : calculatedFrom
+    , } , match Foo as rootA {[
+0123456789
+    ] : zchar , }
+, }//x
+, @calculatedFrom( ""abc"" )
+    match pack as // packet A { u8 x, }
+leftPad
+    {[	007
+, 10	]: pack ,  ""CRC32"": Foo ,""it's""
+    : Packet //	t
+, 00 :  Z9_ ,
+    }, repeat u8
+crc
+`crlf
+line` ,}
+    options { falsey = ' ' }
+")).
+Eval vm_compute in ("<<<M351>>>" ++ check (runes_of_ascii "packet packetx {@calculatedFrom(""`tick`"" ) repeat
+    // " ++ [27880; 37322]%N ++ runes_of_ascii "
+    rootA
+    // `tick` ""quote"" 'q'
+    { i16 u
+/// triple
+// `tick` ""quote"" 'q'
+@lengthOf(
+len), int asx ,zchar[ 255 ]
+Packet @calculatedFrom( ""a	b"" ) `" ++ [233]%N ++ runes_of_ascii "` ,
+As falsey `// not a comment`
+,} ,/// triple
+o i64_  `u8 x,` ,repeat zchar[ 4294967296
+    ]
+    matchKey `
+`
+    , @lengthOf(
+    // @lengthOf(
+    int
+    ) // @lengthOf(
+i8 chars
+`u8 x,`
+    , }
+/// triple
+")).
+Eval vm_compute in ("<<<M1160>>>" ++ check (runes_of_ascii "
+options
+{uint8x =
+false /// triple
+; roots =	char[];
+    Packet = 4294967296;
+u128 = true ; leftPad // c
+=
+    zchar[0123456789 ] ; } packet
+    tag { }MetaData BodyLength {
+//	t
+// `tick` ""quote"" 'q'
+u16
+    // @lengthOf(
+    trueish `tab	here` , } packet	MetaDataX
+    /// triple
+    {@calculatedFrom( ""{,}"") metadata
+@calculatedFrom(
+""// no comment""	), } packet // 50% %s
+matchKey{leftPad ,string x,  }
+// " ++ [27880; 37322]%N ++ runes_of_ascii "
+")).
+Eval vm_compute in ("<<<M3740>>>" ++ check (runes_of_ascii "// top
+	options  // c0
 
-    u32
-q
-    ,}
-	,
-    u128
+  {  // c1
+u	// c2
+  	=  // c3
+  	00 // c4
 
-    , u16
-	float32x
-	,string
-s
+  stringy // c5
+	=// c6
+    '0'	// c7
+} 	 // c8
+packet  // c9
+    stringy	// c10
+		{	// c11
+      } // c12
+MetaData 	 // c13
 
+  repeatCount// c14
+    	{	// c15
+    MetaDataX// c16
+	  leftPad  // c17
+  ,  // c18
+
+string  // c19
+	body 	 // c20
+	  `
+`// c21
+,// c22
+  metadata	// c23
+  	options1  // c24
+	,// c25
+  } // c26
+ 
+")).
+Eval vm_compute in ("<<<M3765>>>" ++ check (runes_of_ascii "MetaData T {
+    char[] options1 `say ""hi""`,
+}
+
+MetaData lengthOf {
+    zchar[7] _x,
+}
+
+options {
+    len = i32;//x
+    pack = '\x00';
+    // `tick` ""quote"" 'q'
+    // `tick` ""quote"" 'q'
+    tag = true;
+    u8x = 00;
+    msg_type = ""a\\""
+}
+
+packet trueish {
+    calculatedFrom `tab	here`,
+}
+
+packet crc {
+    repeat falsey {
+        repeat chars `crlf
+                line`,
+    },
+}")).
+Eval vm_compute in ("<<<M4431>>>" ++ check (runes_of_ascii "packet leftPad {
+    stringy @calculatedFrom(""\" ++ [233]%N ++ runes_of_ascii """) `say ""hi""`,
+    @rightPad('0')
+    @tag(4294967296)
+    lengthOf @calculatedFrom(""a	b""),
+    // packet A { u8 x, }
+    //	t
+    repeat i32 trueish `line1
+        line2`,
+    // `tick` ""quote"" 'q'
+}// " ++ [27880; 37322]%N ++ runes_of_ascii "
+
+packet zchar {
+    repeat string x,
+}
+
+options {
+    u8x = 0;
+    A = ""x y""
+    roots = char;
+    packetx = false;
+}")).
+Eval vm_compute in ("<<<M142>>>" ++ check (runes_of_ascii "packet T
+{ char[]metadata  @calculatedFrom(	""abc"" ) /// triple
+`line1
+line2` ,
+    }packet
+    /// triple
+    body
+    // " ++ [27880; 37322]%N ++ runes_of_ascii "
+    { repeat
+len i64_ // @lengthOf(
+, }
+packet	float
+// trailing space 
+//
+{ @leftPad
+    ('0')
+    // " ++ [27880; 37322]%N ++ runes_of_ascii "
+    i32 Header @calculatedFrom( ""a	b"" )
+    ,
+/// triple
+// " ++ [27880; 37322]%N ++ runes_of_ascii "
+string  Logon @calculatedFrom(	""a	b"" ) /// triple
+,
+rootA ,
+}")).
+Eval vm_compute in ("<<<M3539>>>" ++ check (runes_of_ascii "options {
+    StringPrefixLenType = u32;
+    FixedStringPadFromLeft = false;
+}
+packet Logout {
+    f64 Flags,
+    repeat InTail1 {
+        int32 Flags,
+        zchar[1] tag7,
+    },
+    repeat string x,
+}
+root packet Trade {
+    repeat f32 Acct,
+    InTail62 {
+        u32 Qty,
+        zchar[1] x,
+    },
+    repeat string Side2,
+    u16 Ref,
+}
+")).
+Eval vm_compute in ("<<<M1382>>>" ++ check (runes_of_ascii "options
+    // c
+    {lengthOf
+=
+    0123456789	x_y_z= ""CRC32"" ; } root packet Packet {@rightPad
+    (' '
+)
+char[]	string_
+@calculatedFrom(""// no comment""
+/// triple
+// " ++ [128512]%N ++ runes_of_ascii " emoji
+) ,
+// c
+// a // b
+match body as Z9_ { ""`tick`"":charz	, 4294967296 :
+uint8x , 00 : x
+    , },@tag( //
+3 )@tag( 255 ) /// triple
+repeat i64_	`a\`
+,}
+")).
+Eval vm_compute in ("<<<M422>>>" ++ check (runes_of_ascii "packet
+msg_type{@calculatedFrom(
+""1"" )
+// `tick` ""quote"" 'q'
+// @lengthOf(
+@lengthOf( u8x
+    )
+    @rightPad
+(  ' '  ) pack rootA ,
+    repeat char[ // @lengthOf(
+4294967296  ] u ,
+    @lengthOf( Packet
+    // @lengthOf(
+    )
+@lengthOf( falsey
+// a // b
+// " ++ [27880; 37322]%N ++ runes_of_ascii "
+) @lengthOf( BodyLength )  repeat float64 pack	, }
+")).
+Eval vm_compute in ("<<<M999>>>" ++ check (runes_of_ascii "packet
+    MetaDataX {@tag( 10 )
+    i8
+asx`crlf
+line` , @lengthOf( crc )match x_y_z
+as Foo
+{ 00 :
+u8x ,
+    } ,@tag(
+    4294967296 ) int16 x_y_z , repeat int32
+    trueish , @calculatedFrom(
+""x y"" ) repeat u32	matchKey  , repeat //	t
+uint8x BodyLength `it's` , repeat i64
+    _x `100% of %d` , }
+
+")).
+Eval vm_compute in ("<<<M3596>>>" ++ check (runes_of_ascii "
+root 
+packet MetaDataX	{
+    pack {
+
+u8x { 
+uint16 
+uint8x,
+    // " ++ [27880; 37322]%N ++ runes_of_ascii "
+	} ,}, }
+packet rootA
+    {	A
+    charz `" ++ [233]%N ++ runes_of_ascii "` ,float64
+    rootA	`" ++ [28040; 24687; 31867; 22411]%N ++ runes_of_ascii "`,}  MetaData	Z9_ {
+	pack 
+repeatCount 
+`u8 x,`
+    , string  x  `100% of %d`
+,
+
+    string 
+repeatCount  //	t
+    `a\` 
+,}  // packet A { u8 x, }
+")).
+Eval vm_compute in ("<<<M1849>>>" ++ check (runes_of_ascii "packet packet	packetx { // trailing space 
+x_y_z
+{
+string
+charz ,
+string x// @lengthOf(
+`two words`
+    ,  u8x { // `tick` ""quote"" 'q'
+charz `100% of %d` // packet A { u8 x, }
+,}// " ++ [27880; 37322]%N ++ runes_of_ascii "
+,} , }
+    // a // b
+    packet metadata {  @leftPad ( '0') repeat i32 options1 ,u64 uint8x , }
+")).
+Eval vm_compute in ("<<<M1914>>>" ++ check (runes_of_ascii "packet	packetx { // trailing space 
+x_y_z
+{
+string
+charz ,
+string x// @lengthOf(
+`two words`
+    ,  u8x char // `tick` ""quote"" 'q'
+charz `100% of %d` // packet A { u8 x, }
+,}// " ++ [27880; 37322]%N ++ runes_of_ascii "
+,} , }
+    // a // b
+    packet metadata {  @leftPad ( '0') repeat i32 options1 ,u64 uint8x , }
+")).
+Eval vm_compute in ("<<<M1939>>>" ++ check (runes_of_ascii "packet	packetx { // trailing space 
+x_y_z
+{
+string
+charz ,
+string x// @lengthOf(
+`two words`
+    ,  u8x { // `tick` ""quote"" 'q'
+charz `100% of %d` // packet A { u8 x, }
+,}// " ++ [27880; 37322]%N ++ runes_of_ascii "
+as} , }
+    // a // b
+    packet metadata {  @leftPad ( '0') repeat i32 options1 ,u64 uint8x , }
+")).
+Eval vm_compute in ("<<<M1953>>>" ++ check (runes_of_ascii "packet	packetx { // trailing space 
+x_y_z
+{
+string
+charz ,
+string x// @lengthOf(
+`two words`
+    ,  u8x { // `tick` ""quote"" 'q'
+charz `100% of %d` // packet A { u8 x, }
+,}// " ++ [27880; 37322]%N ++ runes_of_ascii "
+,} , packet
+    // a // b
+    } metadata {  @leftPad ( '0') repeat i32 options1 ,u64 uint8x , }
+")).
+Eval vm_compute in ("<<<M1951>>>" ++ check (runes_of_ascii "packet	packetx { // trailing space 
+x_y_z
+{
+string
+charz ,
+string x// @lengthOf(
+`two words`
+    ,  u8x { // `tick` ""quote"" 'q'
+charz `100% of %d` // packet A { u8 x, }
+,}// " ++ [27880; 37322]%N ++ runes_of_ascii "
+,} , 
+    // a // b
+    packet metadata {  @leftPad ( '0') repeat i32 options1 ,u64 uint8x , }
+")).
+Eval vm_compute in ("<<<M3767>>>" ++ check (runes_of_ascii "packet T {
+    char[] metadata @calculatedFrom(""abc"") `line1
+    line2`,
+}
+
+packet body {
+    repeat len i64_,
+}
+
+packet float {
+    @leftPad('0')
+    // " ++ [27880; 37322]%N ++ runes_of_ascii "
+    i32 Header @calculatedFrom(""a	b""),
+    /// triple
+    // " ++ [27880; 37322]%N ++ runes_of_ascii "
+    string Logon @calculatedFrom(""a	b""),
+    rootA,
+}")).
+Eval vm_compute in ("<<<M2001>>>" ++ check (runes_of_ascii "packet	packetx { // trailing space 
+x_y_z
+{
+string
+charz ,
+string x// @lengthOf(
+`two words`
+    ,  u8x { // `tick` ""quote"" 'q'
+charz `100% of %d` // packet A { u8 x, }
+,}// " ++ [27880; 37322]%N ++ runes_of_ascii "
+,} , }
+    // a // b
+    packet metadata {  @leftPad ( '0') repeat i32  ,u64 uint8x , }
+")).
+Eval vm_compute in ("<<<M3500>>>" ++ check (runes_of_ascii "// top
+packet // c0a
+  // c0b
+orderItem // c1a
+  // c1b
+{ // c2
+u8
+    // c3
+a , }
+    // c6
+root
+    // c7
+packet // c8a
+  // c8b
+newOrder // c9a
+  // c9b
+{ orderItem // c11a
+  // c11b
+, // c12a
+  // c12b
+u8
+    // c13
+x
+    // c14
+, // c15a
+  // c15b
+}
+    // c16
+")).
+Eval vm_compute in ("<<<M1093>>>" ++ check (runes_of_ascii "packet _x{
+    @lengthOf( Z9_
+) @calculatedFrom( ""// no comment"" ) @tag( 10 ) _x { msg_type, int32 i8i8	@lengthOf( //x
+string_)  `" ++ [233]%N ++ runes_of_ascii "`
+, crc@lengthOf( Pad ) , }
+    , Foo a1,@rightPad('0'
+    //
+    ) char[]asx
+@lengthOf( options1 ) ,
+int32 x `it's` , } // a // b")).
+Eval vm_compute in ("<<<M543>>>" ++ check (runes_of_ascii "options	{
+x =	uint32 ;
+    _x= true ;
+    matchKey = ""`tick`"" // a // b
+;
+// trailing space 
+//	t
+tag =
+//
+// " ++ [27880; 37322]%N ++ runes_of_ascii "
+'0' ; packetx =char[
+    3 ]
+}options{ }
+    //x
+    packet rootA { roots
+    , @lengthOf(
+    falsey ) @lengthOf( u128 ) zchar[
+255] stringy
 , }
 
 ")).
-Eval vm_compute in ("<<<M707>>>" ++ check (runes_of_ascii "// c
-packet i64_ {	char[] calculatedFrom  } packet
-trueish  {@calculatedFrom(
-""a\\"" ) o { i32 falsey@lengthOf( uint8x ),
-} , } // `tick` ""quote"" 'q'
-options {// c
-Z9_ = ' '//
-}
-")).
-Eval vm_compute in ("<<<M295>>>" ++ check (runes_of_ascii "options{zchar
-=7 ;
+Eval vm_compute in ("<<<M2151>>>" ++ check (runes_of_ascii "packet// packet A { u8 x, }
+repeatCount	{// packet A { u8 x, }
+@leftPad ( '\x00'
+) repeat u8x MetaDataX `crlf
+line`,
+    repeat
+    char[] MetaDataX
+    ,
+u64	uint8x@calculatedFrom(""a\""b""
 // c
 // packet A { u8 x, }
-msg_type =	uint8 falsey =	1 ;
-}
-    MetaData  Pad// @lengthOf(
-{ f64	u `tab	here`
-,// a // b
-}	options {
-    }
-// " ++ [128512]%N ++ runes_of_ascii " emoji
-")).
-Eval vm_compute in ("<<<M1793>>>" ++ check (runes_of_ascii "packet A {
-    Inner {
-        u8 x `a
-            b
-          c`,
-        Deep {
-            u8 y `a
-                b
-              c`,
-        },
-    },
-}")).
-Eval vm_compute in ("<<<M10>>>" ++ check (runes_of_ascii "MetaData
-    chars{
-char[]Header `say ""hi""`
-,
-    char[] matchKey
-,char[ 1
-    ]  u8x , zchar A ,x falsey
-,
-zchar[ 42
-    ] calculatedFrom , }
-")).
-Eval vm_compute in ("<<<M143>>>" ++ check (runes_of_ascii "options { msg_type = 00 string_ =
-// `tick` ""quote"" 'q'
-// c
-0 x
-=
-zchar[
-255 ] ;leftPad =false ;f32a // @lengthOf(
-=
-007 ; // " ++ [27880; 37322]%N ++ runes_of_ascii "
-}
-")).
-Eval vm_compute in ("<<<M460>>>" ++ check (runes_of_ascii "options
-{
-matchKey = 42/// triple
-x='0' ;
-// packet A { u8 x, }
-//
-charz
-=
-// packet A { u8 x, }
-// trailing space 
-true  ; }")).
-Eval vm_compute in ("<<<M602>>>" ++ check (runes_of_ascii "MetaData
-    // trailing space 
-    matchKey
-{ u64 u64 chars // a // b
-,char[] lengthOf `// not a comment`
-    , //	t
-}")).
-Eval vm_compute in ("<<<M609>>>" ++ check (runes_of_ascii "MetaData
-    // trailing space 
-    matchKey
-{ u64 repeat // a // b
-,char[] lengthOf `// not a comment`
-    , //	t
-}")).
-Eval vm_compute in ("<<<M937>>>" ++ check (runes_of_ascii "packet A {
-    Inner {
-        u8 x `a
-    b
-  c`,
-        Deep {
-            u8 y `a
-    b
-  c`,
-        },
-    },
-}")).
-Eval vm_compute in ("<<<M619>>>" ++ check (runes_of_ascii "MetaData
-    // trailing space 
-    matchKey
-{ u64 chars // a // b
-,i16 lengthOf `// not a comment`
-    , //	t
-}")).
-Eval vm_compute in ("<<<M591>>>" ++ check (runes_of_ascii "MetaData
-    // trailing space 
-    
-{ u64 chars // a // b
-,char[] lengthOf `// not a comment`
-    , //	t
-}")).
-Eval vm_compute in ("<<<M908>>>" ++ check (runes_of_ascii "packet A {
-  match k as n {
-    [1, ""bb"", 007, ""d"", 5, ""f"", 7, ""h"", 9, ""j"", 11, ""l""] : B
-    2 : C
-  },
-}")).
-Eval vm_compute in ("<<<M1268>>>" ++ check (runes_of_ascii "packet calculatedFrom { @tag( 4294967296 ) u msg_type
-// c
-, char[ 3 ] crc @lengthOf( len ) `u8 x,` , }")).
-Eval vm_compute in ("<<<M867>>>" ++ check (runes_of_ascii "packet A {
-  match k as n {
-    [""a"", ""bb"", ""c c"", ""d"", ""e"", ""f"", ""g"", ""h"", ""i""] : B
-    2 : C
-  },
-}")).
-Eval vm_compute in ("<<<M1636>>>" ++ check (runes_of_ascii "// c
-      packet o
+`tab	here` )
+,//
+}MetaData pack
     {
-
-@tag( 
-42 )	repeat x
-	{char[
-
-0123456789]
-	i64_	, 
-} 
-, }options	{
-	}
+    }
 ")).
-Eval vm_compute in ("<<<M1146>>>" ++ check (runes_of_ascii "packet Logon { @tag( 42 ) @rightPad ( ' ' // c
-) @leftPad ( ) repeat trueish { string T , } , }")).
-Eval vm_compute in ("<<<M861>>>" ++ check (runes_of_ascii "packet A {
-  match k as n {
-    [""a"", ""bb"", 007, ""d"", ""e"", 66, ""g"", ""h""] : B,
-    2 : C
-  },
-}")).
-Eval vm_compute in ("<<<M1986>>>" ++ check (runes_of_ascii "packet A {
-    B b `a
-    
-    b`,
-    B `a
-    
-    b`,
-    repeat B bs `a
-    
-    b`,
-}")).
-Eval vm_compute in ("<<<M1779>>>" ++ check (runes_of_ascii "packet A {
-    Inner {
-        match k as n {
-            [1] : B,
-        },
-    },
-}")).
-Eval vm_compute in ("<<<M1246>>>" ++ check (runes_of_ascii "packet o { @tag( 42 ) repeat x { char[ 0123456789 ] i64_ , } , } options { } // c
-")).
-Eval vm_compute in ("<<<M1229>>>" ++ check (runes_of_ascii "packet o { @tag( 42 ) repeat x { char[ 0123456789
+Eval vm_compute in ("<<<M2129>>>" ++ check (runes_of_ascii "packet// packet A { u8 x, }
+repeatCount	{// packet A { u8 x, }
+@leftPad ( '\x00'
+) repeat u8x MetaDataX `crlf
+line`,
+    repeat
+    char[] MetaDataX
+    ,
+	uint8x@calculatedFrom(""a\""b""
 // c
-] i64_ , } , } options { }")).
-Eval vm_compute in ("<<<M1824>>>" ++ check (runes_of_ascii "MetaData matchKey {
-    u64 chars,
-    char[] lengthOf `// not a comment`,//	t
+// packet A { u8 x, }
+) `tab	here`
+,//
+}MetaData pack
+    {
+    }
+")).
+Eval vm_compute in ("<<<M1441>>>" ++ check (runes_of_ascii "packet calculatedFrom
+{ @calculatedFrom( ""a\\"" float32 zchar[ 4294967296 ]
+calculatedFrom@lengthOf( pack )	`100% of %d` ,char[]body@calculatedFrom( ""// no comment"" )  ,
+@tag( 007) //x
+int8
+leftPad`it's` , repeat pack
+    { repeat char[ 3] body
+,},
 }")).
-Eval vm_compute in ("<<<M201>>>" ++ check (runes_of_ascii "packet A { Logon {
-    repeat  char[ 42 ]falsey `a\`  ,repeat int32 T , } ,}")).
-Eval vm_compute in ("<<<M804>>>" ++ check (runes_of_ascii "packet A {
-  match k as n {
-    [1, ""bb"", 007, ""d""] : B
-    2 : C
-  },
-}")).
-Eval vm_compute in ("<<<M1311>>>" ++ check (runes_of_ascii "MetaData _x // c
-{ zchar[ 4294967296 ] lengthOf `// not a comment` , }")).
-Eval vm_compute in ("<<<M791>>>" ++ check (runes_of_ascii "packet A {
-  match k as n {
-    [1, ""bb"", 007] : B
-    2 : C
-  },
-}")).
-Eval vm_compute in ("<<<M16>>>" ++ check (runes_of_ascii "MetaData
-    stringy
-{ char[ 0] chars// @lengthOf(
-`{ , }` , }")).
-Eval vm_compute in ("<<<M1682>>>" ++ check (runes_of_ascii "packet
-A { 
-match k as  n {1 :
-B
-	, 
+Eval vm_compute in ("<<<M4239>>>" ++ check (runes_of_ascii "
+root
 
+    packet
+msg_type
+
+    {	@leftPad (
+'\x00'
+
+)
+	    // trailing space 
+	  //x
+
+	o@lengthOf(x_y_z	) , 
+repeat
+
+// 50% %s
     // c
-  } ,  }
+f64
+
+    matchKey
+	`it's` 
+,
+
+    @calculatedFrom(  ""1"" )	uint16 // trailing space 
+
+matchKey ,
+    }
 
 ")).
-Eval vm_compute in ("<<<M1291>>>" ++ check (runes_of_ascii "// top
-packet // c0
-lengthOf // c1
-{ // c2
-} // c3
-")).
-Eval vm_compute in ("<<<M1691>>>" ++ check (runes_of_ascii "root packet A {
-    u8 x `a
-        b`,
+Eval vm_compute in ("<<<M1629>>>" ++ check (runes_of_ascii "packet calculatedFrom
+{ @calculatedFrom( ""a\\"" ) zchar[ 4294967296 ]
+calculatedFrom@lengthOf( pack )	`100% of %d` ,char[]body@calculatedFrom( ""// no comment"" )  ,
+@tag( 007~ ) //x
+int8
+leftPad`it's` , repeat pack
+    { repeat char[ 3] body
+,},
 }")).
-Eval vm_compute in ("<<<M1375>>>" ++ check (runes_of_ascii "
+Eval vm_compute in ("<<<M1426>>>" ++ check (runes_of_ascii "packet calculatedFrom
+) @calculatedFrom( ""a\\"" ) zchar[ 4294967296 ]
+calculatedFrom@lengthOf( pack )	`100% of %d` ,char[]body@calculatedFrom( ""// no comment"" )  ,
+@tag( 007) //x
+int8
+leftPad`it's` , repeat pack
+    { repeat char[ 3] body
+,},
+}")).
+Eval vm_compute in ("<<<M1600>>>" ++ check (runes_of_ascii "packet calculatedFrom
+{ @calculatedFrom( ""a\\"" ) zchar[ 4294967296 ]
+calculatedFrom@lengthOf( pack )	`100% of %d` ,char[]body@calculatedFrom( ""// no comment"" )  ,
+@tag( 007) //x
+int8
+leftPad`it's` , repeat pack
+    { repeat char[ 3] body
+,,}
+}")).
+Eval vm_compute in ("<<<M1417>>>" ++ check (runes_of_ascii "i64 calculatedFrom
+{ @calculatedFrom( ""a\\"" ) zchar[ 4294967296 ]
+calculatedFrom@lengthOf( pack )	`100% of %d` ,char[]body@calculatedFrom( ""// no comment"" )  ,
+@tag( 007) //x
+int8
+leftPad`it's` , repeat pack
+    { repeat char[ 3] body
+,},
+}")).
+Eval vm_compute in ("<<<M1443>>>" ++ check (runes_of_ascii "packet calculatedFrom
+{ @calculatedFrom( ""a\\"" )  4294967296 ]
+calculatedFrom@lengthOf( pack )	`100% of %d` ,char[]body@calculatedFrom( ""// no comment"" )  ,
+@tag( 007) //x
+int8
+leftPad`it's` , repeat pack
+    { repeat char[ 3] body
+,},
+}")).
+Eval vm_compute in ("<<<M3714>>>" ++ check (runes_of_ascii "
+packet	// c
+      repeatCount
+{
 
-  root 
-packet	P{
-	string	s,
+}
+	MetaData calculatedFrom
+	{
+	}
+
+    root 
+packet
+
+Header
+    {  repeat
+
+f32a
+metadata
+	`doc`
+	,
+}
+    root
+packet
+    u128 {
+@calculatedFrom(
+""""
+	)  zchar[4294967296 
+]A
+@lengthOf(  A  )
+	,  }
+
+")).
+Eval vm_compute in ("<<<M3894>>>" ++ check (runes_of_ascii "MetaData trueish
+
+{ stringy
+BodyLength 
+        // 50% %s
+// 50% %s
+,char[	007
+]
+// a // b
+	metadata
+
+,
+float64 zchar ,
+	leftPad chars ,
+u32  MetaDataX ,
+    } options
+
+    {	lengthOf 
+
+// c
+	// c
+	  = ""a\""b""
+}
+")).
+Eval vm_compute in ("<<<M563>>>" ++ check (runes_of_ascii "packet stringy { char[ 0123456789 ] Packet	@lengthOf(
+// c
+//	t
+trueish
+)
+,
+char[]
+crc`" ++ [233]%N ++ runes_of_ascii "` , float
+i64_
+    ,repeat // 50% %s
+stringy
+`{ , }` // packet A { u8 x, }
+, @calculatedFrom( ""1"" ) repeat  string_ , }
+")).
+Eval vm_compute in ("<<<M834>>>" ++ check (runes_of_ascii "packet lengthOf {// trailing space 
+@lengthOf( Pad ) @leftPad
+// a // b
+/// triple
+( ' ' )@rightPad (
+'0' )
+    u/// triple
+@lengthOf( _x  )	`say ""hi""` ,o x ,
+@calculatedFrom(
+""`tick`""
+    )
+    Pad ,}")).
+Eval vm_compute in ("<<<M265>>>" ++ check (runes_of_ascii "packet	matchKey {
+@lengthOf( Logon )repeat zchar	{zchar[
+007 ] MetaDataX ,
+}, } options {	A = ""`tick`"";
+    // " ++ [128512]%N ++ runes_of_ascii " emoji
+    uint8x =
+i64  matchKey =uint16 a1 =
+    ' ' ;chars = true /// triple
+}")).
+Eval vm_compute in ("<<<M599>>>" ++ check (runes_of_ascii "MetaData
+    float	{ MetaDataX
+    charz
+,
+    u128 A// @lengthOf(
+`u8 x,` , MetaDataX falsey ,
+u8x repeatCount	,
+    i32 asx
+    ,  float64 zchar `" ++ [233]%N ++ runes_of_ascii "` /// triple
+,
+    } options
+    {}
+")).
+Eval vm_compute in ("<<<M2148>>>" ++ check (runes_of_ascii "packet// packet A { u8 x, }
+repeatCount	{// packet A { u8 x, }
+@leftPad ( '\x00'
+) repeat u8x MetaDataX `crlf
+line`,
+    repeat
+    char[] MetaDataX
+    ,
+u64	uint8x@calculatedFrom(")).
+Eval vm_compute in ("<<<M4208>>>" ++ check (runes_of_ascii "
+MetaData u8x
+{ 
+}
+packet// trailing space 
+
+zchar 	 // `tick` ""quote"" 'q'
+{  charz {
+    trueish	// 50% %s
+
+`two words` 
+,	} ,
+    }
+    options {T = string }	// " ++ [128512]%N ++ runes_of_ascii " emoji
+")).
+Eval vm_compute in ("<<<M494>>>" ++ check (runes_of_ascii "packet i64_ {} MetaData packetx{ char[ 7]	stringy`line1
+line2` ,/// triple
+zchar repeatCount `crlf
+line` , len i64_ , zchar[
+42]
+As
+    ,}
+//x
+// " ++ [27880; 37322]%N ++ runes_of_ascii "
+MetaData
+crc	{}")).
+Eval vm_compute in ("<<<M1715>>>" ++ check (runes_of_ascii "options { } packet Packet{char[] i64_ ,
+@tag(
+    255) match
+crc as i8i8 MetaData""{,}"" : trueish """" : Pad , ""a\\"" :
+Foo ,
+    1 :packetx
+, """ ++ [128512]%N ++ runes_of_ascii """ : trueish , } , }")).
+Eval vm_compute in ("<<<M4192>>>" ++ check (runes_of_ascii "MetaData metadata {
+    a1 lengthOf `100% of %d`,
+    // " ++ [128512]%N ++ runes_of_ascii " emoji
+    asx o,
+    int32 crc,
+}
+
+packet a1 {
+    @tag(0)
+    zchar[65535] len `// not a comment`,
+}")).
+Eval vm_compute in ("<<<M764>>>" ++ check (runes_of_ascii "packet matchKey{
+a1 x ,repeat Foo { repeat
+tag options1
+    `crlf
+line`,
+    } , @calculatedFrom( ""1"")uint32	metadata	,
+int16 pack `u8 x,`, }
+// @lengthOf(
+")).
+Eval vm_compute in ("<<<M2374>>>" ++ check (runes_of_ascii "
+packet MetaDataX
+{
+    @leftPad
+( // a // b
+'0'
+) i8 u @lengthOf(
+MetaDataX
+    ) `say ""hi""` ,	} MetaData { BodyLength
+    asx
+x_y_z `" ++ [233]%N ++ runes_of_ascii "`
+, uint64 u128 , }
+")).
+Eval vm_compute in ("<<<M1798>>>" ++ check (runes_of_ascii "options { } packet Packet{char[] i64_ ,
+@tag(
+    255) match
+crc as i8i8{""{,}"" : trueish """" : Pad , ""a\\"" :
+Foo ,
+    1 :packetx
+, """ ++ [128512]%N ++ runes_of_ascii """ : : trueish , } , }")).
+Eval vm_compute in ("<<<M1774>>>" ++ check (runes_of_ascii "options { } packet Packet{char[] i64_ ,
+@tag(
+    255) match
+crc as i8i8{""{,}"" : trueish """" : Pad , ""a\\"" :
+Foo ,
+    : 1 packetx
+, """ ++ [128512]%N ++ runes_of_ascii """ : trueish , } , }")).
+Eval vm_compute in ("<<<M1719>>>" ++ check (runes_of_ascii "options { } packet Packet{char[] i64_ ,
+@tag(
+    255) match
+crc as i8i8{: ""{,}"" trueish """" : Pad , ""a\\"" :
+Foo ,
+    1 :packetx
+, """ ++ [128512]%N ++ runes_of_ascii """ : trueish , } , }")).
+Eval vm_compute in ("<<<M593>>>" ++ check (runes_of_ascii "
+MetaData chars
+{Logon MetaDataX
+`
+` ,	zchar[ 00] // @lengthOf(
+zchar`tab	here` ,
+//	t
+// @lengthOf(
+metadata As `doc`,	matchKey pack , }
+// @lengthOf(
+")).
+Eval vm_compute in ("<<<M4324>>>" ++ check (runes_of_ascii "  options{// 50% %s
+  roots
+
+    =
+
+    3
+    _x =
+false len =
+	""" ++ [28040; 24687]%N ++ runes_of_ascii """ 
+	// " ++ [27880; 37322]%N ++ runes_of_ascii "
+	// " ++ [128512]%N ++ runes_of_ascii " emoji
+rootA
+=true
+	;
+    }
+
+MetaData chars
+	{
+}
+    options{
+
+}")).
+Eval vm_compute in ("<<<M4119>>>" ++ check (runes_of_ascii "MetaData float {
+    MetaDataX charz,
+    u128 A `u8 x,`,
+    MetaDataX falsey,
+    u8x repeatCount,
+    i32 asx,
+    float64 zchar `" ++ [233]%N ++ runes_of_ascii "`,
+}
+
+options {
+}")).
+Eval vm_compute in ("<<<M1805>>>" ++ check (runes_of_ascii "options { } packet Packet{char[] i64_ ,
+@tag(
+    255) match
+crc as i8i8{""{,}"" : trueish """" : Pad , ""a\\"" :
+Foo ,
+    1 :packetx
+, """ ++ [128512]%N ++ runes_of_ascii """ : ) , } , }")).
+Eval vm_compute in ("<<<M4397>>>" ++ check (runes_of_ascii "MetaData metadata {
+}
+
+MetaData rootA {
+    i8 i64_,
+    roots options1 `a\`,
+    lengthOf Header,
+    Z9_ Foo,
+    int16 BodyLength,
+    // c
+}")).
+Eval vm_compute in ("<<<M3938>>>" ++ check (runes_of_ascii "
+
+  packet
+	B  { u8 a  , 
+}
+	root
+	packet 
+P{ 
+u8
+
+K
+
+    , u64	L
+@lengthOf( 
+Body) ,
+	match
+
+    K
+	as  Body
+
+    {	1
+	: B,
+}	,
+	} ")).
+Eval vm_compute in ("<<<M968>>>" ++ check (runes_of_ascii "options {As/// triple
+=
+""" ++ [28040; 24687]%N ++ runes_of_ascii """ }options
+// c
+// c
+{o
+    = ' ' // c
+; i8i8
+=
+' '
+msg_type= uint8 ; trueish = false
+    i64_ = 255; } 	 ")).
+Eval vm_compute in ("<<<M4406>>>" ++ check (runes_of_ascii "MetaData u8x {
+    trueish int,
+}
+
+MetaData o {
+    char[1] trueish,
+    zchar[255] Pad,
+    int16 MetaDataX,
+}
+
+packet packetx {
+}")).
+Eval vm_compute in ("<<<M684>>>" ++ check (runes_of_ascii "MetaData Packet {zchar[007	] tag
+    `a\`
+,	zchar[ 10
+    ]u,
+float  x_y_z
+,
+rootA  metadata`` , char[	0 ] A// a // b
+, }
+")).
+Eval vm_compute in ("<<<M3284>>>" ++ check (runes_of_ascii "MetaData metadata { } MetaData rootA { i8 i64_ , roots options1 // c
+`a\` , lengthOf Header , Z9_ Foo , int16 BodyLength , }")).
+Eval vm_compute in ("<<<M3492>>>" ++ check (runes_of_ascii "
+
+  packet 
+A { u8
+	a
+	,
+} packet B
+
+{ u16
+b ,	}
+
+root 
+packet
+    P
+{ u8  K, match K as M
+	{1:A , 
+1
+:  B ,},
+
+    }
+")).
+Eval vm_compute in ("<<<M650>>>" ++ check (runes_of_ascii "packet
+As{@lengthOf(
+    crc  )
+    // " ++ [128512]%N ++ runes_of_ascii " emoji
+    char[ 4294967296 ] // trailing space 
+u8x `// not a comment`,
+}
+")).
+Eval vm_compute in ("<<<M1771>>>" ++ check (runes_of_ascii "options { } packet Packet{char[] i64_ ,
+@tag(
+    255) match
+crc as i8i8{""{,}"" : trueish """" : Pad , ""a\\"" :
+Foo")).
+Eval vm_compute in ("<<<M3323>>>" ++ check (runes_of_ascii "MetaData float {
+// c
+uint8 BodyLength , } MetaData charz { float32 trueish `a\` , i16 metadata `say ""hi""` , }")).
+Eval vm_compute in ("<<<M3513>>>" ++ check (runes_of_ascii "
+
+  packet 
+FooBar
+
+    { u8
+	a 
+,
+	}	packet
+foo_bar
+
+{
+
+u16
+b ,	} root	packet R  {FooBar
+
+,foo_bar ,
+}
+
+")).
+Eval vm_compute in ("<<<M411>>>" ++ check (runes_of_ascii "packet options1 {@leftPad( '\x00'
+// " ++ [128512]%N ++ runes_of_ascii " emoji
+// c
+)	calculatedFrom , } MetaData len{// a // b
+}
+// 50% %s
+")).
+Eval vm_compute in ("<<<M4096>>>" ++ check (runes_of_ascii "
+options {
+
+pack =
+	u64 ;rootA/// triple
+  	=
+
+    ""packet""  // 50% %s
+  ; As
+
+    =	true;
+    }
+
+")).
+Eval vm_compute in ("<<<M4534>>>" ++ check (runes_of_ascii "
+packet  A 
+{
+match
+
+    k 
+as n{
+[
+
+1 ,""bb""
+, 
+007
+, ""d""
+
+    , 5 ]	: B ,  2:	C
+} ,
 
     } ")).
-Eval vm_compute in ("<<<M1498>>>" ++ check (runes_of_ascii "packet
-A 
-{ u8
-x
+Eval vm_compute in ("<<<M3007>>>" ++ check (runes_of_ascii "packet A {
+  match k as n {
+    [1, 22, ""c c"", 4, 5, ""f"", 7, 8, ""i"", 10, 11] : B
+    2 : C
+  },
+}")).
+Eval vm_compute in ("<<<M3943>>>" ++ check (runes_of_ascii "MetaData
+	zchar
+{T
 
-`d" ++ [12288]%N ++ runes_of_ascii "`, // c" ++ [12288]%N ++ runes_of_ascii "
+stringy
+	`// not a comment` 
+
+// @lengthOf(
+// `tick` ""quote"" 'q'
+      ,} ")).
+Eval vm_compute in ("<<<M723>>>" ++ check (runes_of_ascii "
+packet
+rootA { f32
+    T  `doc`, string	lengthOf@calculatedFrom( """ ++ [128512]%N ++ runes_of_ascii """
+    )
+`a\`
+    , }
+
+")).
+Eval vm_compute in ("<<<M2273>>>" ++ check (runes_of_ascii "MetaData _x {string x `// not a comment` , string
+i64_ // trailing s''pace 
+`a\` ,
+    }
+")).
+Eval vm_compute in ("<<<M3781>>>" ++ check (runes_of_ascii "
+
+  packet	A
+
+    {
+Inner
+    { u8 
+x
+`%%d%!` 
+,
+
+Deep  {
+u8 y `%%d%!`  , }
+,  } 
+,
+}")).
+Eval vm_compute in ("<<<M2935>>>" ++ check (runes_of_ascii "packet A {
+  match k as n {
+    [""a"", ""bb"", ""c c"", ""d"", ""e"", ""f""] : B,
+    2 : C
+  },
+}")).
+Eval vm_compute in ("<<<M4074>>>" ++ check (runes_of_ascii "
+options  { 	 // " ++ [27880; 37322]%N ++ runes_of_ascii "
+  Z9_
+=	' ' 
+;// @lengthOf(
+repeatCount
+
+    = 
+'\x00' ;
+	}
+")).
+Eval vm_compute in ("<<<M695>>>" ++ check (runes_of_ascii "// " ++ [128512]%N ++ runes_of_ascii " emoji
+packet float
+{ u128 {
+    zchar[ 42 ] u , // trailing space 
+}, //x
+}")).
+Eval vm_compute in ("<<<M4505>>>" ++ check (runes_of_ascii "packet tag {
+    repeat char[4294967296] zchar ``,
+    repeat i8i8 _x,
+}// a // b")).
+Eval vm_compute in ("<<<M3446>>>" ++ check (runes_of_ascii "packet Inner {
+    u8 a,
+}
+root packet P {
+    repeat Inner items,
+    u8 x,
 }
 ")).
-Eval vm_compute in ("<<<M289>>>" ++ check (runes_of_ascii "options
-    // " ++ [128512]%N ++ runes_of_ascii " emoji
-    { }
+Eval vm_compute in ("<<<M897>>>" ++ check (runes_of_ascii "MetaData u8x { uint64 calculatedFrom , char[ // @lengthOf(
+3 ] crc , //x
+}
 ")).
-Eval vm_compute in ("<<<M922>>>" ++ check (runes_of_ascii "packet A {
-    u8 x `a
+Eval vm_compute in ("<<<M3388>>>" ++ check (runes_of_ascii "MetaData _x { f64 charz `tab	here` , } options { BodyLength = """ ++ [233]%N ++ runes_of_ascii "t" ++ [233]%N ++ runes_of_ascii """ // c
+; }")).
+Eval vm_compute in ("<<<M2911>>>" ++ check (runes_of_ascii "packet A {
+  match k as n {
+    [1, ""bb"", 007, ""d""] : B,
+    2 : C
+  },
+}")).
+Eval vm_compute in ("<<<M2234>>>" ++ check (runes_of_ascii "MetaData _x {string x  , string
+i64_ // trailing space 
+`a\` ,
+    }
+")).
+Eval vm_compute in ("<<<M3402>>>" ++ check (runes_of_ascii "packet // c
+o { @tag( 4294967296 ) options1 @lengthOf( u8x ) `" ++ [233]%N ++ runes_of_ascii "` , }")).
+Eval vm_compute in ("<<<M1303>>>" ++ check (runes_of_ascii "options { T
+= char /// triple
+; Logon //x
+=
+' ' ; i64_ = string }")).
+Eval vm_compute in ("<<<M121>>>" ++ check (runes_of_ascii "
+packet As {i8
+// a // b
+// a // b
+uint8x
+`line1
+line2` ,
+    }")).
+Eval vm_compute in ("<<<M3025>>>" ++ check (runes_of_ascii "packet A {
+    B b `a
+b`,
+    B `a
+b`,
+    repeat B bs `a
 b`,
 }")).
-Eval vm_compute in ("<<<M1295>>>" ++ check (runes_of_ascii "
-// c
-packet lengthOf { }")).
-Eval vm_compute in ("<<<M227>>>" ++ check (runes_of_ascii " // packet A { u8 x, }")).
-Eval vm_compute in ("<<<M752>>>" ++ check ([65533]%N ++ runes_of_ascii "&" ++ [65533]%N ++ runes_of_ascii "	a" ++ [65533; 6]%N ++ runes_of_ascii "A" ++ [65533]%N ++ runes_of_ascii "N" ++ [65533; 65533]%N ++ runes_of_ascii "$" ++ [12; 65533]%N ++ runes_of_ascii "W" ++ [65533]%N ++ runes_of_ascii "?")).
-Eval vm_compute in ("<<<M1055>>>" ++ check (runes_of_ascii "packet A {
+Eval vm_compute in ("<<<M2727>>>" ++ check (runes_of_ascii "@leftPad root 00 ) ] uint16 char ) options i64 ] @rightPad ]")).
+Eval vm_compute in ("<<<M746>>>" ++ check (runes_of_ascii "packet int { char[
+007 ] pack
+    ,
 }
-// c" ++ [6158]%N)).
-Eval vm_compute in ("<<<M640>>>" ++ check (runes_of_ascii "MetaData
-    // ")).
-Eval vm_compute in ("<<<M765>>>" ++ check (runes_of_ascii "Y,v&WC")).
-Eval vm_compute in ("<<<M724>>>" ++ check (runes_of_ascii " ")).
+// trailing space 
+")).
+Eval vm_compute in ("<<<M3917>>>" ++ check (runes_of_ascii "packet A {
+}
+
+packet B {
+}
+
+MetaData M {
+}
+
+options {
+}")).
+Eval vm_compute in ("<<<M4422>>>" ++ check (runes_of_ascii "  MetaData
+	M
+	{ u8 x`a
+b`
+, 
+T
+    t
+    `a
+b`
+
+,  }")).
+Eval vm_compute in ("<<<M2332>>>" ++ check (runes_of_ascii "
+MetaData Pad{
+u32 rootA `line1
+line2` " ++ [65279]%N ++ runes_of_ascii " ,
+    }
+")).
+Eval vm_compute in ("<<<M3648>>>" ++ check (runes_of_ascii "  MetaData  zchar { 
+    // c
+zchar[ 3
+]Pad,
+	}
+")).
+Eval vm_compute in ("<<<M3052>>>" ++ check (runes_of_ascii "MetaData M {
+    u8 x `a
+
+b`,
+    T t `a
+
+b`,
+}")).
+Eval vm_compute in ("<<<M331>>>" ++ check (runes_of_ascii "
+packet u128
+    // @lengthOf(
+    { } // " ++ [27880; 37322]%N)).
+Eval vm_compute in ("<<<M4503>>>" ++ check (runes_of_ascii "packet BodyLength {
+    char[] MetaDataX,
+}")).
+Eval vm_compute in ("<<<M703>>>" ++ check (runes_of_ascii "packet
+x
+{ // a // b
+uint8 len ,
+    }
+")).
+Eval vm_compute in ("<<<M2628>>>" ++ check (runes_of_ascii "packet A { match k as n { [1,] : B }, }")).
+Eval vm_compute in ("<<<M2691>>>" ++ check (runes_of_ascii "options { a = 1; } options { a = 1; }")).
+Eval vm_compute in ("<<<M1119>>>" ++ check (runes_of_ascii "packet uint8x
+    {}
+// @lengthOf(
+")).
+Eval vm_compute in ("<<<M3053>>>" ++ check (runes_of_ascii "root packet A {
+    u8 x `a
+
+b`,
+}")).
+Eval vm_compute in ("<<<M1671>>>" ++ check (runes_of_ascii "options { } packet Packet{char[]")).
+Eval vm_compute in ("<<<M3116>>>" ++ check (runes_of_ascii "packet A {
+ u8 x `d" ++ [160]%N ++ runes_of_ascii "`, // c" ++ [160]%N ++ runes_of_ascii "
+}")).
+Eval vm_compute in ("<<<M1243>>>" ++ check (runes_of_ascii "//	t
+packet// " ++ [27880; 37322]%N ++ runes_of_ascii "
+Packet { }
+")).
+Eval vm_compute in ("<<<M4127>>>" ++ check (runes_of_ascii "
+MetaData  M{x y
+
+,
+    }
+")).
+Eval vm_compute in ("<<<M2641>>>" ++ check (runes_of_ascii "packet A { @tag() u8 x, }")).
+Eval vm_compute in ("<<<M355>>>" ++ check (runes_of_ascii "
+MetaData asx {
+    }
+")).
+Eval vm_compute in ("<<<M2594>>>" ++ check (runes_of_ascii "packet A { x y `d`, }")).
+Eval vm_compute in ("<<<M822>>>" ++ check (runes_of_ascii "MetaData Pad
+{
+} //")).
+Eval vm_compute in ("<<<M3104>>>" ++ check (runes_of_ascii "packet A {
+}
+// c ")).
+Eval vm_compute in ("<<<M3185>>>" ++ check (runes_of_ascii "// c" ++ [6158]%N ++ runes_of_ascii "
+packet A {
+}")).
+Eval vm_compute in ("<<<M3132>>>" ++ check (runes_of_ascii "packet A {
+}// c" ++ [8202]%N)).
+Eval vm_compute in ("<<<M421>>>" ++ check (runes_of_ascii "packet	crc
+{ }
+")).
+Eval vm_compute in ("<<<M1226>>>" ++ check (runes_of_ascii "// " ++ [128512]%N ++ runes_of_ascii " emoji
+
+")).
+Eval vm_compute in ("<<<M2507>>>" ++ check (runes_of_ascii "@lengthOf (")).
+Eval vm_compute in ("<<<M2218>>>" ++ check (runes_of_ascii "MetaData")).
+Eval vm_compute in ("<<<M2837>>>" ++ check (runes_of_ascii "i{@l#Ie")).
+Eval vm_compute in ("<<<M2451>>>" ++ check (runes_of_ascii "charz")).
+Eval vm_compute in ("<<<M3173>>>" ++ check (runes_of_ascii "// c" ++ [8203]%N)).
+Eval vm_compute in ("<<<M3895>>>" ++ check (runes_of_ascii "// c")).
+Eval vm_compute in ("<<<M2698>>>" ++ check (runes_of_ascii """s""")).
+Eval vm_compute in ("<<<M2474>>>" ++ check (runes_of_ascii "a")).
